@@ -112,7 +112,7 @@ theorem execField_sound (nn : Bool) (mode : Mode) (rerr : Option String) (c : Co
       HasWrite S.log w ∨ (Spec.descends mode rerr = true ∧ w ∈ Spec.writesC c itemPath)) := by
   have hpush : ∀ e : Entry, (∀ mp i key v, e ≠ .write mp i key v) → ∀ T : Store,
       (HasWrite (T.push e).log w ↔ HasWrite T.log w) := fun e he T => HasWrite_push_other T e w he
-  have hnw : ∀ (T : Store) (chan out : List Path) (n : Nat),
+  have hnw : ∀ (T : Store) (chan : List Nat) (out : List (Nat × Path)) (n : Nat),
       HasWrite ({ T with chan := chan, outstanding := out, nextId := n } : Store).log w ↔ HasWrite T.log w :=
     fun _ _ _ _ => Iff.rfl
   unfold execField
@@ -147,5 +147,1772 @@ theorem execField_sound (nn : Bool) (mode : Mode) (rerr : Option String) (c : Co
       simp only [Fut.mayW, Fut.out, Res.out, Out.isOk, Spec.descends, false_or]
       refine ⟨fun h => absurd h.1 (by simp), fun h => Or.inl ?_⟩
       exact (hpush _ (by intros; simp) S).mp ((hpush _ (by intros; simp) _).mp h)
+
+theorem mem_writesF_cons (key : String) (nn : Bool) (mode : Mode) (rerr : Option String) (c : Comp)
+    (rest : List Field) (path : Path) (i : Nat) (w : Write) :
+    w ∈ Spec.writesF (.mk key nn mode rerr c :: rest) path i ↔
+      (∃ v, Spec.field path (.mk key nn mode rerr c) = .ok v ∧ w = ⟨path, i, key, v⟩) ∨
+      (Spec.descends mode rerr = true ∧ w ∈ Spec.writesC c (path ++ [.key key])) ∨
+      w ∈ Spec.writesF rest path (i + 1) := by
+  simp only [Spec.writesF, List.mem_append]
+  cases hf : Spec.field path (.mk key nn mode rerr c) <;> cases hd : Spec.descends mode rerr <;>
+    simp [or_assoc]
+
+theorem mem_writesL_cons (c : Comp) (rest : List Comp) (path : Path) (i : Nat) (w : Write) :
+    w ∈ Spec.writesL (c :: rest) path i ↔
+      w ∈ Spec.writesC c (path ++ [.idx i]) ∨ w ∈ Spec.writesL rest path (i + 1) := by
+  simp [Spec.writesL]
+
+theorem fieldCont_ready_err (rest : List Field) (path : Path) (n i : Nat) (acc : List Fut) (key : String) (e : Err)
+    (S11 : Store) : fieldCont rest path n i acc key (.ready (.err e)) S11 = (.ready (.err e), S11) := rfl
+
+theorem fieldCont_ready_ok (rest : List Field) (path : Path) (n i : Nat) (acc : List Fut) (key : String) (v : Val)
+    (S11 : Store) : fieldCont rest path n i acc key (.ready (.ok v)) S11 =
+      execFields rest path n (i + 1) acc (S11.push (.write path i key v)) := rfl
+
+theorem fieldCont_async (rest : List Field) (path : Path) (n i : Nat) (acc : List Fut) (key : String) (f1 : Fut)
+    (S11 : Store) (hne : ∀ e, f1 = .ready (.err e) → False) (hno : ∀ v, f1 = .ready (.ok v) → False) :
+    fieldCont rest path n i acc key f1 S11 =
+      execFields rest path n (i + 1) (acc ++ [Fut.mapOk (OkFn.setSlot path i key) f1]) S11 := by
+  unfold fieldCont
+  split
+  · exact absurd rfl (hne _)
+  · exact absurd rfl (hno _)
+  · rfl
+
+/-- Everything the builders `Set`, and everything the futures they return may `Set` later, is
+    right for the sub-response they are building. -/
+theorem complete_sound_aux :
+    (∀ nn c path S, ∀ w, ((complete nn c path S).1.mayW w → w ∈ Spec.writesC c path) ∧
+      (HasWrite (complete nn c path S).2.log w → HasWrite S.log w ∨ w ∈ Spec.writesC c path)) ∧
+    (∀ fields path n i acc S, ∀ w,
+      ((execFields fields path n i acc S).1.mayW w → Fut.mayWL acc w ∨ w ∈ Spec.writesF fields path i) ∧
+      (HasWrite (execFields fields path n i acc S).2.log w → HasWrite S.log w ∨ w ∈ Spec.writesF fields path i)) ∧
+    (∀ inn items path i S, ∀ w,
+      (Fut.mayWL (completeItems inn items path i S).1 w → w ∈ Spec.writesL items path i) ∧
+      (HasWrite (completeItems inn items path i S).2.log w → HasWrite S.log w ∨ w ∈ Spec.writesL items path i)) := by
+  apply complete.mutual_induct
+    (motive_1 := fun nn c path S => ∀ w, ((complete nn c path S).1.mayW w → w ∈ Spec.writesC c path) ∧
+      (HasWrite (complete nn c path S).2.log w → HasWrite S.log w ∨ w ∈ Spec.writesC c path))
+    (motive_2 := fun fields path n i acc S => ∀ w,
+      ((execFields fields path n i acc S).1.mayW w → Fut.mayWL acc w ∨ w ∈ Spec.writesF fields path i) ∧
+      (HasWrite (execFields fields path n i acc S).2.log w → HasWrite S.log w ∨ w ∈ Spec.writesF fields path i))
+    (motive_3 := fun inn items path i S => ∀ w,
+      (Fut.mayWL (completeItems inn items path i S).1 w → w ∈ Spec.writesL items path i) ∧
+      (HasWrite (completeItems inn items path i S).2.log w → HasWrite S.log w ∨ w ∈ Spec.writesL items path i))
+  · intro nn path S w; simp only [complete]
+    exact ⟨fun h => (nonNullWrap_mayW _ _ _ _ _ h).elim, fun h => Or.inl ((nonNullWrap_writes _ _ _ _ _).mp h)⟩
+  · intro nn path S a w; simp only [complete]
+    exact ⟨fun h => (nonNullWrap_mayW _ _ _ _ _ h).elim, fun h => Or.inl ((nonNullWrap_writes _ _ _ _ _).mp h)⟩
+  · intro nn path S a w; simp only [complete]
+    exact ⟨fun h => (nonNullWrap_mayW _ _ _ _ _ h).elim, fun h => Or.inl ((nonNullWrap_writes _ _ _ _ _).mp h)⟩
+  · intro nn path S inn items fs S1 h ih w
+    have ih := ih w; rw [h] at ih
+    simp only [complete, h, Spec.writesC]
+    exact ⟨fun hw => ih.1 (mkJoin_mayW _ _ (mkMapOkToAny_mayW _ _ (nonNullWrap_mayW _ _ _ _ _ hw))),
+      fun hw => ih.2 ((nonNullWrap_writes _ _ _ _ _).mp hw)⟩
+  · intro nn path S fields f S1 h ih w
+    have ih := ih w; rw [h] at ih
+    simp only [complete, h, Spec.writesC]
+    refine ⟨fun hw => ?_, fun hw => ih.2 ((nonNullWrap_writes _ _ _ _ _).mp hw)⟩
+    rcases ih.1 (mkMapOkToAny_mayW _ _ (nonNullWrap_mayW _ _ _ _ _ hw)) with h1 | h1
+    · exact h1.elim
+    · exact h1
+  · intro inn path i S w; simp only [completeItems, Fut.mayWL]; exact ⟨fun h => h.elim, fun h => Or.inl h⟩
+  · intro inn path i S c rest f S1 h1 f1 S11 h2 fs S2 h3 ih1 ih2 w
+    have ih1 := ih1 w; rw [h1] at ih1
+    have ih2 := ih2 w; rw [h3] at ih2
+    have hc := catchIfNullable_mayW inn f S1 w
+    have hcw := catchIfNullable_writes inn f S1 w
+    rw [h2] at hc hcw
+    simp only [completeItems, h1, h2, h3, Fut.mayWL, mem_writesL_cons]
+    constructor
+    · rintro (hw | hw)
+      · exact Or.inl (ih1.1 (hc hw))
+      · exact Or.inr (ih2.1 hw)
+    · intro hw
+      rcases ih2.2 hw with hw | hw
+      · rcases ih1.2 (hcw.mp hw) with hw | hw
+        · exact Or.inl hw
+        · exact Or.inr (Or.inl hw)
+      · exact Or.inr (Or.inr hw)
+  · intro path n i acc S w
+    simp only [execFields]
+    exact ⟨fun hw => Or.inl (mkAfter_mayW _ _ (mkMapOkValue_mayW _ _ _ hw)), fun hw => Or.inl hw⟩
+  · intro path n i acc S key nn rerr c rest ih w
+    rw [execFields_tname]
+    have ih := ih w
+    simp only [mem_writesF_cons]
+    constructor
+    · intro hw
+      rcases ih.1 hw with hw | hw
+      · exact Or.inl hw
+      · exact Or.inr (Or.inr (Or.inr hw))
+    · intro hw
+      rcases ih.2 hw with hw | hw
+      · rcases (HasWrite_push_write _ _ _ _ _ _).mp hw with hw | hw
+        · exact Or.inl hw
+        · exact Or.inr (Or.inl ⟨tnameVal c, by simp [Spec.field], hw⟩)
+      · exact Or.inr (Or.inr (Or.inr hw))
+  · intro path n i acc S key nn mode rerr c rest itemPath f S1 h1 S11 e hm h2 ihc w
+    have hm' : mode ≠ .tname := fun h => hm h
+    have hf := execField_sound nn mode rerr c itemPath (fun S' => complete nn c itemPath S') S w hm' (fun S' => ihc S' w)
+    rw [h1] at hf
+    have hcw := catchIfNullable_writes nn f S1 w
+    rw [h2] at hcw
+    rw [execFields_cons path key nn mode rerr c rest n i acc S S1 S11 f _ hm' h1 h2, fieldCont_ready_err]
+    simp only [Fut.mayW, mem_writesF_cons]
+    refine ⟨fun hw => hw.elim, fun hw => ?_⟩
+    rcases hf.2 (hcw.mp hw) with hw | hw
+    · exact Or.inl hw
+    · exact Or.inr (Or.inr (Or.inl hw))
+  · intro path n i acc S key nn mode rerr c rest itemPath f S1 h1 S11 v hm h2 ihc ih w
+    have hm' : mode ≠ .tname := fun h => hm h
+    have hf := execField_sound nn mode rerr c itemPath (fun S' => complete nn c itemPath S') S w hm' (fun S' => ihc S' w)
+    rw [h1] at hf
+    have hcw := catchIfNullable_writes nn f S1 w
+    rw [h2] at hcw
+    have hout := fieldStep_out path key nn mode rerr c S S1 S11 f _ hm' (fun S' => complete_out _ _ _ _) h1 h2
+    simp only [Fut.out, Res.out] at hout
+    rw [execFields_cons path key nn mode rerr c rest n i acc S S1 S11 f _ hm' h1 h2, fieldCont_ready_ok]
+    have ih := ih w
+    simp only [mem_writesF_cons]
+    constructor
+    · intro hw
+      rcases ih.1 hw with hw | hw
+      · exact Or.inl hw
+      · exact Or.inr (Or.inr (Or.inr hw))
+    · intro hw
+      rcases ih.2 hw with hw | hw
+      · rcases (HasWrite_push_write _ _ _ _ _ _).mp hw with hw | hw
+        · rcases hf.2 (hcw.mp hw) with hw | hw
+          · exact Or.inl hw
+          · exact Or.inr (Or.inr (Or.inl hw))
+        · exact Or.inr (Or.inl ⟨v, hout.symm, hw⟩)
+      · exact Or.inr (Or.inr (Or.inr hw))
+  · intro path n i acc S key nn mode rerr c rest itemPath f S1 h1 S11 f1 hne hno hm h2 ihc ih w
+    have hm' : mode ≠ .tname := fun h => hm h
+    have hf := execField_sound nn mode rerr c itemPath (fun S' => complete nn c itemPath S') S w hm' (fun S' => ihc S' w)
+    rw [h1] at hf
+    have hcm := catchIfNullable_mayW nn f S1 w
+    have hcw := catchIfNullable_writes nn f S1 w
+    rw [h2] at hcm hcw
+    have hout := fieldStep_out path key nn mode rerr c S S1 S11 f f1 hm' (fun S' => complete_out _ _ _ _) h1 h2
+    rw [execFields_cons path key nn mode rerr c rest n i acc S S1 S11 f f1 hm' h1 h2,
+      fieldCont_async rest path n i acc key f1 S11 hne hno]
+    have ih := ih w
+    simp only [mem_writesF_cons]
+    constructor
+    · intro hw
+      rcases ih.1 hw with hw | hw
+      · rcases (mayWL_append_one _ _ _).mp hw with hw | hw
+        · exact Or.inl hw
+        · simp only [Fut.mayW] at hw
+          rcases hw with ⟨v, hv, rfl⟩ | hw
+          · exact Or.inr (Or.inl ⟨v, by rw [← hout, hv], rfl⟩)
+          · exact Or.inr (Or.inr (Or.inl (hf.1 (hcm hw))))
+      · exact Or.inr (Or.inr (Or.inr hw))
+    · intro hw
+      rcases ih.2 hw with hw | hw
+      · rcases hf.2 (hcw.mp hw) with hw | hw
+        · exact Or.inl hw
+        · exact Or.inr (Or.inr (Or.inl hw))
+      · exact Or.inr (Or.inr (Or.inr hw))
+
+/-! ### poll -/
+
+theorem applyK_sound (nn : Bool) (c : Comp) (path : Path) (r : Res) (S : Store) (w : Write) :
+    ((applyK nn c path r S).1.mayW w → r.isOk = true ∧ w ∈ Spec.writesC c path) ∧
+    (HasWrite (applyK nn c path r S).2.log w → HasWrite S.log w ∨ (r.isOk = true ∧ w ∈ Spec.writesC c path)) := by
+  cases r with
+  | ok v =>
+    simp only [applyK, Res.isOk, true_and]
+    exact complete_sound_aux.1 nn c path S w
+  | err e =>
+    simp only [applyK, Fut.mayW, Res.isOk]
+    exact ⟨fun h => h.elim, fun h => Or.inl h⟩
+
+theorem out_isOk_of_res {g : Fut} {r : Res} (h : r.out = g.out) : g.out.isOk = r.isOk := by
+  rw [← h]; cases r <;> rfl
+
+/-- Polling performs only `Set`s the future was allowed to perform, and does not widen what it may
+    perform later. -/
+theorem poll_sound_aux :
+    (∀ f S, ∀ w, ((poll f S).1.mayW w → f.mayW w) ∧
+      (HasWrite (poll f S).2.1.log w → HasWrite S.log w ∨ f.mayW w)) ∧
+    (∀ fs S, ∀ w, (Fut.mayWL (pollAll fs S).1 w → Fut.mayWL fs w) ∧
+      (HasWrite (pollAll fs S).2.1.log w → HasWrite S.log w ∨ Fut.mayWL fs w)) := by
+  apply poll_induct'
+    (P1 := fun f S => ∀ w, ((poll f S).1.mayW w → f.mayW w) ∧
+      (HasWrite (poll f S).2.1.log w → HasWrite S.log w ∨ f.mayW w))
+    (P2 := fun fs S => ∀ w, (Fut.mayWL (pollAll fs S).1 w → Fut.mayWL fs w) ∧
+      (HasWrite (pollAll fs S).2.1.log w → HasWrite S.log w ∨ Fut.mayWL fs w))
+  · intro r S w; rw [poll_ready]; exact ⟨fun h => h, fun h => Or.inl h⟩
+  · intro id res S w
+    by_cases h : id ∈ S.chan <;> simp only [poll, h, if_true, if_false]
+    · exact ⟨fun h => h.elim, fun h => Or.inl h⟩
+    · exact ⟨fun h => h, fun h => Or.inl h⟩
+  · intro fn g S ih w
+    have ih := ih w
+    rcases hp : poll g S with ⟨g', S1, o⟩
+    rw [hp] at ih
+    cases o with
+    | some r =>
+      rw [poll_map_some hp]
+      exact ⟨fun h => h.elim, fun h => ih.2 ((applyMap_writes _ _ _ _).mp h)⟩
+    | none => rw [poll_map_none hp]; exact ih
+  · intro fn g S ih w
+    cases fn with
+    | setSlot mp i key =>
+      have ih := ih w
+      have hres := poll_result_out g S
+      rcases hp : poll g S with ⟨g', S1, o⟩
+      rw [hp] at ih hres
+      cases o with
+      | some r =>
+        cases r with
+        | ok v =>
+          rw [poll_mapOk_ok hp]
+          refine ⟨fun h => h.elim, fun h => ?_⟩
+          rcases (HasWrite_push_write _ _ _ _ _ _).mp h with h | h
+          · rcases ih.2 h with h | h
+            · exact Or.inl h
+            · exact Or.inr (Or.inr h)
+          · exact Or.inr (Or.inl ⟨v, (hres _ rfl).symm, h⟩)
+        | err e =>
+          rw [poll_mapOk_err hp]
+          refine ⟨fun h => h.elim, fun h => ?_⟩
+          rcases ih.2 h with h | h
+          · exact Or.inl h
+          · exact Or.inr (Or.inr h)
+      | none =>
+        rw [poll_mapOk_none hp]
+        have ho := poll_out g S; rw [hp] at ho
+        simp only [Fut.mayW]
+        constructor
+        · rintro (⟨v, hv, rfl⟩ | h)
+          · exact Or.inl ⟨v, by rw [← ho]; exact hv, rfl⟩
+          · exact Or.inr (ih.1 h)
+        · intro h
+          rcases ih.2 h with h | h
+          · exact Or.inl h
+          · exact Or.inr (Or.inr h)
+  · intro g S ih w
+    have ih := ih w
+    rcases hp : poll g S with ⟨g', S1, o⟩
+    rw [hp] at ih
+    cases o with
+    | some r => rw [poll_mapOkToAny_some hp]; exact ⟨fun h => h.elim, ih.2⟩
+    | none => rw [poll_mapOkToAny_none hp]; exact ih
+  · intro v g S ih w
+    have ih := ih w
+    rcases hp : poll g S with ⟨g', S1, o⟩
+    rw [hp] at ih
+    cases o with
+    | some r =>
+      cases r with
+      | ok u => rw [poll_mapOkValue_ok hp]; exact ⟨fun h => h.elim, ih.2⟩
+      | err e => rw [poll_mapOkValue_err hp]; exact ⟨fun h => h.elim, ih.2⟩
+    | none => rw [poll_mapOkValue_none hp]; exact ih
+  · intro nn c path g S ih ihk w
+    have ih := ih w
+    have hres := poll_result_out g S
+    have ho := poll_out g S
+    rcases hp : poll g S with ⟨g', S1, o⟩
+    rw [hp] at ih hres ho
+    cases o with
+    | none =>
+      rw [poll_thenK_wait hp]
+      simp only [Fut.mayW]
+      simp only at ho
+      constructor
+      · rintro (h | h)
+        · exact Or.inl (ih.1 h)
+        · exact Or.inr (by rw [← ho]; exact h)
+      · intro h
+        rcases ih.2 h with h | h
+        · exact Or.inl h
+        · exact Or.inr (Or.inl h)
+    | some r =>
+      have hk := applyK_sound nn c path r S1 w
+      have ihk := ihk g' S1 r hp w
+      have hok : g.out.isOk = r.isOk := out_isOk_of_res (hres r rfl)
+      have hwrites : HasWrite (poll (applyK nn c path r S1).1 (applyK nn c path r S1).2).2.1.log w →
+          HasWrite S.log w ∨ (Fut.thenK nn c path g none).mayW w := by
+        intro h
+        simp only [Fut.mayW]
+        rcases ihk.2 h with h | h
+        · rcases hk.2 h with h | h
+          · rcases ih.2 h with h | h
+            · exact Or.inl h
+            · exact Or.inr (Or.inl h)
+          · exact Or.inr (Or.inr ⟨by rw [hok]; exact h.1, h.2⟩)
+        · have := hk.1 h
+          exact Or.inr (Or.inr ⟨by rw [hok]; exact this.1, this.2⟩)
+      rcases hp2 : poll (applyK nn c path r S1).1 (applyK nn c path r S1).2 with ⟨t', S3, o2⟩
+      rw [hp2] at ihk hwrites
+      cases o2 with
+      | some r' => rw [poll_thenK_fire_some hp hp2]; exact ⟨fun h => h.elim, hwrites⟩
+      | none =>
+        rw [poll_thenK_fire_none hp hp2]
+        refine ⟨fun h => ?_, hwrites⟩
+        simp only [Fut.mayW] at h ⊢
+        have := hk.1 (ihk.1 h)
+        exact Or.inr ⟨by rw [hok]; exact this.1, this.2⟩
+  · intro nn c path g t S ih w
+    have ih := ih w
+    rcases hp : poll t S with ⟨t', S1, o⟩
+    rw [hp] at ih
+    cases o with
+    | some r => rw [poll_thenK_cont_some hp]; exact ⟨fun h => h.elim, ih.2⟩
+    | none => rw [poll_thenK_cont_none hp]; exact ih
+  · intro tag a b g S _ _ w; exact ⟨fun _ => trivial, fun _ => Or.inr trivial⟩
+  · intro tag a b g t S _ w; exact ⟨fun _ => trivial, fun _ => Or.inr trivial⟩
+  · intro fs S ih w
+    have ih := ih w
+    rcases hp : pollAll fs S with ⟨fs', S1, p⟩
+    rw [hp] at ih
+    cases p with
+    | failed e => rw [poll_join_failed hp]; exact ⟨fun h => h.elim, ih.2⟩
+    | done vs => rw [poll_join_done hp]; exact ⟨fun h => h.elim, ih.2⟩
+    | pending => rw [poll_join_pending hp]; exact ih
+  · intro fs S ih w
+    have ih := ih w
+    rcases hp : pollAll fs S with ⟨fs', S1, p⟩
+    rw [hp] at ih
+    cases p with
+    | failed e => rw [poll_after_failed hp]; exact ⟨fun h => h.elim, ih.2⟩
+    | done vs => rw [poll_after_done hp]; exact ⟨fun h => h.elim, ih.2⟩
+    | pending => rw [poll_after_pending hp]; exact ih
+  · intro S w; rw [pollAll_nil]; exact ⟨fun h => h, fun h => Or.inl h⟩
+  · intro f rest S ih ihr w
+    have ih := ih w
+    rcases hp : poll f S with ⟨f', S1, o⟩
+    rw [hp] at ih
+    have hcombine : ∀ (rest' : List Fut) (S2 : Store),
+        ((Fut.mayWL rest' w → Fut.mayWL rest w) ∧ (HasWrite S2.log w → HasWrite S1.log w ∨ Fut.mayWL rest w)) →
+        (Fut.mayWL (f' :: rest') w → Fut.mayWL (f :: rest) w) ∧
+        (HasWrite S2.log w → HasWrite S.log w ∨ Fut.mayWL (f :: rest) w) := by
+      intro rest' S2 hr
+      simp only [Fut.mayWL]
+      constructor
+      · rintro (h | h)
+        · exact Or.inl (ih.1 h)
+        · exact Or.inr (hr.1 h)
+      · intro h
+        rcases hr.2 h with h | h
+        · rcases ih.2 h with h | h
+          · exact Or.inl h
+          · exact Or.inr (Or.inl h)
+        · exact Or.inr (Or.inr h)
+    cases o with
+    | some r =>
+      cases r with
+      | err e =>
+        rw [pollAll_cons_err hp]
+        exact hcombine rest S1 ⟨fun h => h, fun h => Or.inl h⟩
+      | ok v =>
+        have ihr := ihr f' S1 _ hp (by intro e h; cases h) w
+        rcases hp2 : pollAll rest S1 with ⟨rest', S2, p⟩
+        rw [hp2] at ihr
+        rw [pollAll_cons_ok hp hp2]; exact hcombine rest' S2 ihr
+    | none =>
+      have ihr := ihr f' S1 _ hp (by intro e h; cases h) w
+      rcases hp2 : pollAll rest S1 with ⟨rest', S2, p⟩
+      rw [hp2] at ihr
+      rw [pollAll_cons_none hp hp2]; exact hcombine rest' S2 ihr
+
+/-! ## §B coverage: every slot of every visible object gets set -/
+
+/-- Slot `cell` has been set (by some `Set`) in the log. -/
+def Covered (log : List Entry) (cell : Cell) : Prop := ∃ key v, Entry.write cell.1 cell.2 key v ∈ log
+
+theorem Covered.mono {S S' : Store} (h : Mono S S') {cell : Cell} (hc : Covered S.log cell) : Covered S'.log cell := by
+  obtain ⟨l, hl⟩ := h.log
+  obtain ⟨key, v, hm⟩ := hc
+  exact ⟨key, v, by rw [hl]; exact List.mem_append_left _ hm⟩
+
+theorem Covered.push_write (S : Store) (mp : Path) (i : Nat) (key : String) (v : Val) :
+    Covered (S.push (.write mp i key v)).log (mp, i) := ⟨key, v, by simp [Store.push]⟩
+
+mutual
+  /-- The slots `f` still has to set before it resolves ok (none if it is going to fail). -/
+  def Fut.owed : Fut → List Cell
+    | .ready _ => []
+    | .promise _ _ => []
+    | .map _ g => g.owed
+    | .mapOk (.setSlot mp i _) g => if g.out.isOk then (mp, i) :: g.owed else []
+    | .mapOkToAny g => g.owed
+    | .mapOkValue _ g => g.owed
+    | .thenK nn c path g none => if g.out.isOk then Spec.cellsC nn c path else []
+    | .thenK _ _ _ _ (some t) => t.owed
+    | .thenT _ _ _ _ _ => []
+    | .join gs => if (Fut.outs gs).isSome then Fut.owedL gs else []
+    | .after gs => if (Fut.outs gs).isSome then Fut.owedL gs else []
+  def Fut.owedL : List Fut → List Cell
+    | [] => []
+    | g :: gs => g.owed ++ Fut.owedL gs
+end
+
+theorem mkMap_owed (fn : MapFn) (f : Fut) (S : Store) : (mkMap fn f S).1.owed = f.owed := by
+  cases f <;> simp [mkMap, Fut.owed]
+
+theorem mkMapOkToAny_owed (f : Fut) : (mkMapOkToAny f).owed = f.owed := by
+  cases f <;> simp [mkMapOkToAny, Fut.owed]
+
+theorem mkMapOkValue_owed (v : Val) (f : Fut) : (mkMapOkValue v f).owed = f.owed := by
+  cases f with
+  | ready r => cases r <;> simp [mkMapOkValue, Fut.owed]
+  | _ => simp [mkMapOkValue, Fut.owed]
+
+theorem nonNullWrap_owed (nn : Bool) (path : Path) (f : Fut) (S : Store) : (nonNullWrap nn path f S).1.owed = f.owed := by
+  unfold nonNullWrap; cases nn <;> simp [mkMap_owed]
+
+theorem catchIfNullable_owed (nn : Bool) (f : Fut) (S : Store) : (catchIfNullable nn f S).1.owed = f.owed := by
+  unfold catchIfNullable; cases nn <;> simp [mkMap_owed]
+
+theorem scanReady_done_owed (fs : List Fut) (vs : List Val) (h : scanReady fs = .done vs) : Fut.owedL fs = [] := by
+  induction fs generalizing vs with
+  | nil => rfl
+  | cons f rest ih =>
+    cases f with
+    | ready r =>
+      cases r with
+      | ok v =>
+        simp only [scanReady] at h
+        cases hr : scanReady rest with
+        | done vs' => simp [Fut.owedL, Fut.owed, ih vs' hr]
+        | failed e => simp [hr] at h
+        | pending => simp [hr] at h
+      | err e => simp [scanReady] at h
+    | _ => simp only [scanReady] at h; split at h <;> cases h
+
+theorem mkJoin_owed (fs : List Fut) (h : (Fut.outs fs).isSome = true) : (mkJoin fs).owed = Fut.owedL fs := by
+  have hs := scanReady_out fs
+  unfold mkJoin
+  split
+  · rename_i e he; rw [hs.1 e he] at h; simp at h
+  · rename_i vs he; simp [Fut.owed, scanReady_done_owed fs vs he]
+  · simp [Fut.owed, h]
+
+theorem mkAfter_owed (fs : List Fut) (h : (Fut.outs fs).isSome = true) : (mkAfter fs).owed = Fut.owedL fs := by
+  have hs := scanReady_out fs
+  unfold mkAfter
+  split
+  · rename_i e he; rw [hs.1 e he] at h; simp at h
+  · rename_i vs he; simp [Fut.owed, scanReady_done_owed fs vs he]
+  · simp [Fut.owed, h]
+
+theorem owedL_append_one (acc : List Fut) (g : Fut) : Fut.owedL (acc ++ [g]) = Fut.owedL acc ++ g.owed := by
+  induction acc with
+  | nil => simp [Fut.owedL]
+  | cons a acc ih => simp [Fut.owedL, ih]
+
+theorem execField_cover (nn : Bool) (mode : Mode) (rerr : Option String) (c : Comp) (itemPath : Path)
+    (completed : Store → Fut × Store) (S : Store) (hd : Spec.descends mode rerr = true)
+    (hc : ∀ S', ∀ cell ∈ Spec.cellsC nn c itemPath, cell ∈ (completed S').1.owed ∨ Covered (completed S').2.log cell) :
+    ∀ cell ∈ Spec.cellsC nn c itemPath,
+      cell ∈ (execField nn mode rerr c itemPath completed S).1.owed ∨
+      Covered (execField nn mode rerr c itemPath completed S).2.log cell := by
+  intro cell hcell
+  unfold execField
+  cases mode <;> cases rerr <;> simp [Spec.descends] at hd
+  · exact hc _ cell hcell
+  · exact Or.inl (by simpa [Fut.owed, Fut.out, Res.out, Out.isOk] using hcell)
+  · exact Or.inl (by simpa [Fut.owed, Fut.out, Res.out, Out.isOk] using hcell)
+
+theorem mem_cellsF_cons (key : String) (nn : Bool) (mode : Mode) (rerr : Option String) (c : Comp)
+    (rest : List Field) (path : Path) (i : Nat) (cell : Cell) :
+    cell ∈ Spec.cellsF (.mk key nn mode rerr c :: rest) path i ↔
+      cell = (path, i) ∨ (Spec.descends mode rerr = true ∧ cell ∈ Spec.cellsC nn c (path ++ [.key key])) ∨
+      cell ∈ Spec.cellsF rest path (i + 1) := by
+  simp only [Spec.cellsF, List.mem_cons, List.mem_append]
+  cases Spec.descends mode rerr <;> simp
+
+theorem items_cons_some (inn : Bool) (c : Comp) (rest : List Comp) (path : Path) (i : Nat)
+    (h : (Spec.items inn (c :: rest) path i).isSome = true) : (Spec.items inn rest path (i + 1)).isSome = true := by
+  simp only [Spec.items] at h
+  cases h1 : Out.caught inn (Spec.comp inn c (path ++ [.idx i])) <;> cases h2 : Spec.items inn rest path (i + 1) <;>
+    simp_all
+
+/-- After building, every slot the reference semantics makes visible is either already set or
+    owed by the returned future. -/
+theorem complete_cover_aux :
+    (∀ nn c path S, ∀ cell ∈ Spec.cellsC nn c path,
+      cell ∈ (complete nn c path S).1.owed ∨ Covered (complete nn c path S).2.log cell) ∧
+    (∀ fields path n i acc S, (Fut.outs acc).isSome = true → Spec.fieldsOk fields path = true →
+      ∀ cell, (cell ∈ Fut.owedL acc ∨ cell ∈ Spec.cellsF fields path i) →
+        cell ∈ (execFields fields path n i acc S).1.owed ∨ Covered (execFields fields path n i acc S).2.log cell) ∧
+    (∀ inn items path i S, (Spec.items inn items path i).isSome = true →
+      ∀ cell ∈ Spec.cellsL inn items path i,
+        cell ∈ Fut.owedL (completeItems inn items path i S).1 ∨ Covered (completeItems inn items path i S).2.log cell) := by
+  apply complete.mutual_induct
+    (motive_1 := fun nn c path S => ∀ cell ∈ Spec.cellsC nn c path,
+      cell ∈ (complete nn c path S).1.owed ∨ Covered (complete nn c path S).2.log cell)
+    (motive_2 := fun fields path n i acc S => (Fut.outs acc).isSome = true → Spec.fieldsOk fields path = true →
+      ∀ cell, (cell ∈ Fut.owedL acc ∨ cell ∈ Spec.cellsF fields path i) →
+        cell ∈ (execFields fields path n i acc S).1.owed ∨ Covered (execFields fields path n i acc S).2.log cell)
+    (motive_3 := fun inn items path i S => (Spec.items inn items path i).isSome = true →
+      ∀ cell ∈ Spec.cellsL inn items path i,
+        cell ∈ Fut.owedL (completeItems inn items path i S).1 ∨ Covered (completeItems inn items path i S).2.log cell)
+  · intro nn path S cell h; simp [Spec.cellsC] at h
+  · intro nn path S a cell h; simp [Spec.cellsC] at h
+  · intro nn path S a cell h; simp [Spec.cellsC] at h
+  · intro nn path S inn items fs S1 h ih cell hcell
+    have hsome : (Spec.items inn items path 0).isSome = true := by
+      simp only [Spec.cellsC, Spec.comp] at hcell
+      cases hi : Spec.items inn items path 0 <;> simp_all [Out.isOk]
+    have hcl : cell ∈ Spec.cellsL inn items path 0 := by
+      simp only [Spec.cellsC] at hcell
+      split at hcell
+      · exact hcell
+      · simp at hcell
+    have ih := ih hsome cell hcl; rw [h] at ih
+    have houts : Fut.outs fs = Spec.items inn items path 0 := by
+      have := complete_out_aux.2.2 inn items path 0 S; rw [h] at this; exact this
+    simp only [complete, h, nonNullWrap_owed, mkMapOkToAny_owed, mkJoin_owed fs (by rw [houts]; exact hsome)]
+    rcases ih with h1 | h1
+    · exact Or.inl h1
+    · exact Or.inr (h1.mono (nonNullWrap_mono _ _ _ _))
+  · intro nn path S fields f S1 h ih cell hcell
+    have hok : Spec.fieldsOk fields path = true := by
+      simp only [Spec.cellsC, Spec.comp] at hcell
+      cases hi : Spec.fieldsOk fields path <;> simp_all [Out.isOk]
+    have hcl : cell ∈ Spec.cellsF fields path 0 := by
+      simp only [Spec.cellsC] at hcell
+      split at hcell
+      · exact hcell
+      · simp at hcell
+    have ih := ih (by simp [Fut.outs]) hok cell (Or.inr hcl); rw [h] at ih
+    simp only [complete, h, nonNullWrap_owed, mkMapOkToAny_owed]
+    rcases ih with h1 | h1
+    · exact Or.inl h1
+    · exact Or.inr (h1.mono (nonNullWrap_mono _ _ _ _))
+  · intro inn path i S _ cell h; simp [Spec.cellsL] at h
+  · intro inn path i S c rest f S1 h1 f1 S11 h2 fs S2 h3 ih1 ih2 hsome cell hcell
+    have hrest := items_cons_some inn c rest path i hsome
+    have hc := catchIfNullable_owed inn f S1
+    have hcm := catchIfNullable_mono inn f S1
+    have hm3 := complete_mono_aux.2.2 inn rest path (i + 1) S11
+    rw [h2] at hc hcm
+    rw [h3] at hm3
+    simp only [completeItems, h1, h2, h3, Fut.owedL]
+    simp only [Spec.cellsL, List.mem_append] at hcell
+    rcases hcell with hcell | hcell
+    · have ih1 := ih1 cell hcell; rw [h1] at ih1
+      rcases ih1 with h | h
+      · exact Or.inl (List.mem_append_left _ (by rw [hc]; exact h))
+      · exact Or.inr ((h.mono hcm).mono hm3)
+    · have ih2 := ih2 hrest cell hcell; rw [h3] at ih2
+      rcases ih2 with h | h
+      · exact Or.inl (List.mem_append_right _ h)
+      · exact Or.inr h
+  · intro path n i acc S hacc _ cell hcell
+    simp only [execFields, mkMapOkValue_owed, mkAfter_owed acc hacc]
+    rcases hcell with h | h
+    · exact Or.inl h
+    · simp [Spec.cellsF] at h
+  · intro path n i acc S key nn rerr c rest ih hacc hok cell hcell
+    rw [execFields_tname]
+    have hok' : Spec.fieldsOk rest path = true := by simpa [fieldsOk_cons] using (by rw [fieldsOk_cons] at hok; exact hok)
+    have hm := complete_mono_aux.2.1 rest path n (i + 1) acc (S.push (.write path i key (tnameVal c)))
+    rcases hcell with h | h
+    · exact ih hacc hok' cell (Or.inl h)
+    · rcases (mem_cellsF_cons _ _ _ _ _ _ _ _ _).mp h with h | h | h
+      · subst h; exact Or.inr ((Covered.push_write S path i key _).mono hm)
+      · simp [Spec.descends] at h
+      · exact ih hacc hok' cell (Or.inr h)
+  · intro path n i acc S key nn mode rerr c rest itemPath f S1 h1 S11 e hm h2 ihc hacc hok cell hcell
+    have hm' : mode ≠ .tname := fun h => hm h
+    have hout := fieldStep_out path key nn mode rerr c S S1 S11 f _ hm' (fun S' => complete_out _ _ _ _) h1 h2
+    rw [fieldsOk_cons, ← hout] at hok
+    simp [Fut.out, Res.out, Out.isOk] at hok
+  · intro path n i acc S key nn mode rerr c rest itemPath f S1 h1 S11 v hm h2 ihc ih hacc hok cell hcell
+    have hm' : mode ≠ .tname := fun h => hm h
+    have hok' : Spec.fieldsOk rest path = true := by rw [fieldsOk_cons] at hok; simp at hok; exact hok.2
+    have hco := catchIfNullable_owed nn f S1
+    have hcm := catchIfNullable_mono nn f S1
+    rw [h2] at hco hcm
+    rw [execFields_cons path key nn mode rerr c rest n i acc S S1 S11 f _ hm' h1 h2, fieldCont_ready_ok]
+    have hmr := complete_mono_aux.2.1 rest path n (i + 1) acc (S11.push (.write path i key v))
+    rcases hcell with h | h
+    · exact ih hacc hok' cell (Or.inl h)
+    · rcases (mem_cellsF_cons _ _ _ _ _ _ _ _ _).mp h with h | h | h
+      · subst h; exact Or.inr ((Covered.push_write S11 path i key v).mono hmr)
+      · have hcov := execField_cover nn mode rerr c itemPath (fun S' => complete nn c itemPath S') S h.1 ihc cell h.2
+        rw [h1] at hcov
+        rcases hcov with hc | hc
+        · simp only at hc; rw [← hco] at hc; simp [Fut.owed] at hc
+        · exact Or.inr (((hc.mono hcm).mono (Mono.push _ _)).mono hmr)
+      · exact ih hacc hok' cell (Or.inr h)
+  · intro path n i acc S key nn mode rerr c rest itemPath f S1 h1 S11 f1 hne hno hm h2 ihc ih hacc hok cell hcell
+    have hm' : mode ≠ .tname := fun h => hm h
+    have hout := fieldStep_out path key nn mode rerr c S S1 S11 f f1 hm' (fun S' => complete_out _ _ _ _) h1 h2
+    have hok1 : f1.out.isOk = true := by rw [hout]; rw [fieldsOk_cons] at hok; simp at hok; exact hok.1
+    have hok' : Spec.fieldsOk rest path = true := by rw [fieldsOk_cons] at hok; simp at hok; exact hok.2
+    have hco := catchIfNullable_owed nn f S1
+    have hcm := catchIfNullable_mono nn f S1
+    rw [h2] at hco hcm
+    rw [execFields_cons path key nn mode rerr c rest n i acc S S1 S11 f f1 hm' h1 h2,
+      fieldCont_async rest path n i acc key f1 S11 hne hno]
+    have hacc' : (Fut.outs (acc ++ [Fut.mapOk (OkFn.setSlot path i key) f1])).isSome = true := by
+      rw [outs_append_one]; simp only [hacc, Fut.out, Bool.true_and]
+      cases hf : f1.out <;> simp_all [outOk, Out.isOk]
+    have hmr := complete_mono_aux.2.1 rest path n (i + 1) (acc ++ [Fut.mapOk (OkFn.setSlot path i key) f1]) S11
+    have ih := ih hacc' hok' cell
+    rw [owedL_append_one] at ih
+    simp only [Fut.owed, hok1, if_true, List.mem_append, List.mem_cons] at ih
+    rcases hcell with h | h
+    · exact ih (Or.inl (Or.inl h))
+    · rcases (mem_cellsF_cons _ _ _ _ _ _ _ _ _).mp h with h | h | h
+      · exact ih (Or.inl (Or.inr (Or.inl h)))
+      · have hcov := execField_cover nn mode rerr c itemPath (fun S' => complete nn c itemPath S') S h.1 ihc cell h.2
+        rw [h1] at hcov
+        rcases hcov with hc | hc
+        · simp only at hc; rw [← hco] at hc; exact ih (Or.inl (Or.inr (Or.inr hc)))
+        · exact Or.inr ((hc.mono hcm).mono hmr)
+      · exact ih (Or.inr h)
+
+/-! ### poll -/
+
+theorem pollAll_done_owed (fs : List Fut) : ∀ (S : Store) (fs' : List Fut) (S' : Store) (vs : List Val),
+    pollAll fs S = (fs', S', .done vs) → Fut.owedL fs' = [] := by
+  induction fs with
+  | nil => intro S fs' S' vs h; rw [pollAll_nil] at h; cases h; rfl
+  | cons f rest ih =>
+    intro S fs' S' vs h
+    rcases hp : poll f S with ⟨f', S1, o⟩
+    cases o with
+    | none =>
+      rcases hp2 : pollAll rest S1 with ⟨rest', S2, p⟩
+      rw [pollAll_cons_none hp hp2] at h
+      cases p <;> simp at h
+    | some r =>
+      cases r with
+      | err e => rw [pollAll_cons_err hp] at h; cases h
+      | ok v =>
+        rcases hp2 : pollAll rest S1 with ⟨rest', S2, p⟩
+        rw [pollAll_cons_ok hp hp2] at h
+        cases p with
+        | done vs' =>
+          simp only [Prod.mk.injEq] at h
+          obtain ⟨rfl, _, _⟩ := h
+          have hr := poll_some_ready f S f' S1 _ hp
+          simp [Fut.owedL, hr, Fut.owed, ih S1 rest' S2 vs' hp2]
+        | failed e => simp at h
+        | pending => simp at h
+
+theorem applyK_cover (nn : Bool) (c : Comp) (path : Path) (r : Res) (S : Store) (hr : r.isOk = true) :
+    ∀ cell ∈ Spec.cellsC nn c path,
+      cell ∈ (applyK nn c path r S).1.owed ∨ Covered (applyK nn c path r S).2.log cell := by
+  cases r with
+  | ok v => simp only [applyK]; exact complete_cover_aux.1 nn c path S
+  | err e => simp [Res.isOk] at hr
+
+/-- Polling never loses an owed slot: it stays owed or gets set. -/
+theorem poll_cover_aux :
+    (∀ f S, ∀ cell ∈ f.owed, cell ∈ (poll f S).1.owed ∨ Covered (poll f S).2.1.log cell) ∧
+    (∀ fs S, ∀ cell ∈ Fut.owedL fs, cell ∈ Fut.owedL (pollAll fs S).1 ∨ Covered (pollAll fs S).2.1.log cell) := by
+  apply poll_induct'
+    (P1 := fun f S => ∀ cell ∈ f.owed, cell ∈ (poll f S).1.owed ∨ Covered (poll f S).2.1.log cell)
+    (P2 := fun fs S => ∀ cell ∈ Fut.owedL fs, cell ∈ Fut.owedL (pollAll fs S).1 ∨ Covered (pollAll fs S).2.1.log cell)
+  · intro r S cell h; simp [Fut.owed] at h
+  · intro id res S cell h; simp [Fut.owed] at h
+  · intro fn g S ih cell hcell
+    have ih := ih cell (by simpa [Fut.owed] using hcell)
+    rcases hp : poll g S with ⟨g', S1, o⟩
+    rw [hp] at ih
+    cases o with
+    | some r =>
+      rw [poll_map_some hp]
+      have hr := poll_some_ready g S g' S1 r hp
+      rcases ih with h | h
+      · simp [hr, Fut.owed] at h
+      · exact Or.inr (h.mono (applyMap_mono _ _ _))
+    | none => rw [poll_map_none hp]; simpa [Fut.owed] using ih
+  · intro fn g S ih cell hcell
+    cases fn with
+    | setSlot mp i key =>
+      have hres := poll_result_out g S
+      have ho := poll_out g S
+      rcases hp : poll g S with ⟨g', S1, o⟩
+      rw [hp] at hres ho
+      simp only [Fut.owed] at hcell
+      by_cases hok : g.out.isOk = true
+      · simp only [hok, if_true, List.mem_cons] at hcell
+        cases o with
+        | some r =>
+          cases r with
+          | ok v =>
+            rw [poll_mapOk_ok hp]
+            have hr := poll_some_ready g S g' S1 _ hp
+            rcases hcell with h | h
+            · subst h; exact Or.inr (Covered.push_write S1 mp i key v)
+            · have ih := ih cell h; rw [hp] at ih
+              rcases ih with h | h
+              · simp [hr, Fut.owed] at h
+              · exact Or.inr (h.mono (Mono.push _ _))
+          | err e =>
+            have := hres _ rfl
+            rw [← this] at hok; simp [Res.out, Out.isOk] at hok
+        | none =>
+          rw [poll_mapOk_none hp]
+          simp only at ho
+          simp only [Fut.owed, ho, hok, if_true, List.mem_cons]
+          rcases hcell with h | h
+          · exact Or.inl (Or.inl h)
+          · have ih := ih cell h; rw [hp] at ih
+            rcases ih with h | h
+            · exact Or.inl (Or.inr h)
+            · exact Or.inr h
+      · simp [hok] at hcell
+  · intro g S ih cell hcell
+    have ih := ih cell (by simpa [Fut.owed] using hcell)
+    rcases hp : poll g S with ⟨g', S1, o⟩
+    rw [hp] at ih
+    cases o with
+    | some r =>
+      rw [poll_mapOkToAny_some hp]
+      have hr := poll_some_ready g S g' S1 r hp
+      rcases ih with h | h
+      · simp [hr, Fut.owed] at h
+      · exact Or.inr h
+    | none => rw [poll_mapOkToAny_none hp]; simpa [Fut.owed] using ih
+  · intro v g S ih cell hcell
+    have ih := ih cell (by simpa [Fut.owed] using hcell)
+    rcases hp : poll g S with ⟨g', S1, o⟩
+    rw [hp] at ih
+    cases o with
+    | some r =>
+      have hr := poll_some_ready g S g' S1 r hp
+      have hcov : Covered S1.log cell := by
+        rcases ih with h | h
+        · simp [hr, Fut.owed] at h
+        · exact h
+      cases r with
+      | ok u => rw [poll_mapOkValue_ok hp]; exact Or.inr hcov
+      | err e => rw [poll_mapOkValue_err hp]; exact Or.inr hcov
+    | none => rw [poll_mapOkValue_none hp]; simpa [Fut.owed] using ih
+  · intro nn c path g S ih ihk cell hcell
+    have hres := poll_result_out g S
+    have ho := poll_out g S
+    rcases hp : poll g S with ⟨g', S1, o⟩
+    rw [hp] at hres ho
+    simp only [Fut.owed] at hcell
+    by_cases hok : g.out.isOk = true
+    · simp only [hok, if_true] at hcell
+      cases o with
+      | none =>
+        rw [poll_thenK_wait hp]
+        simp only at ho
+        exact Or.inl (by simpa [Fut.owed, ho, hok] using hcell)
+      | some r =>
+        have hrok : r.isOk = true := by rw [← out_isOk_of_res (hres r rfl)]; exact hok
+        have hk := applyK_cover nn c path r S1 hrok cell hcell
+        have ihk := ihk g' S1 r hp
+        have hmono := poll_mono (applyK nn c path r S1).1 (applyK nn c path r S1).2
+        rcases hp2 : poll (applyK nn c path r S1).1 (applyK nn c path r S1).2 with ⟨t', S3, o2⟩
+        rw [hp2] at ihk hmono
+        have hfinal : cell ∈ t'.owed ∨ Covered S3.log cell := by
+          rcases hk with h | h
+          · exact ihk cell h
+          · exact Or.inr (h.mono hmono)
+        cases o2 with
+        | some r' =>
+          rw [poll_thenK_fire_some hp hp2]
+          have hr := poll_some_ready _ _ t' S3 r' hp2
+          rcases hfinal with h | h
+          · simp [hr, Fut.owed] at h
+          · exact Or.inr h
+        | none => rw [poll_thenK_fire_none hp hp2]; simpa [Fut.owed] using hfinal
+    · simp [hok] at hcell
+  · intro nn c path g t S ih cell hcell
+    have ih := ih cell (by simpa [Fut.owed] using hcell)
+    rcases hp : poll t S with ⟨t', S1, o⟩
+    rw [hp] at ih
+    cases o with
+    | some r =>
+      rw [poll_thenK_cont_some hp]
+      have hr := poll_some_ready t S t' S1 r hp
+      rcases ih with h | h
+      · simp [hr, Fut.owed] at h
+      · exact Or.inr h
+    | none => rw [poll_thenK_cont_none hp]; simpa [Fut.owed] using ih
+  · intro tag a b g S _ _ cell h; simp [Fut.owed] at h
+  · intro tag a b g t S _ cell h; simp [Fut.owed] at h
+  · intro fs S ih cell hcell
+    have hout := poll_out_aux.2 fs S
+    rcases hp : pollAll fs S with ⟨fs', S1, p⟩
+    rw [hp] at hout
+    simp only [Fut.owed] at hcell
+    by_cases hok : (Fut.outs fs).isSome = true
+    · simp only [hok, if_true] at hcell
+      have ih := ih cell hcell; rw [hp] at ih
+      cases p with
+      | failed e => have := hout.2.1 e rfl; rw [this] at hok; simp at hok
+      | done vs =>
+        rw [poll_join_done hp]
+        have := pollAll_done_owed fs S fs' S1 vs hp
+        rcases ih with h | h
+        · simp [this] at h
+        · exact Or.inr h
+      | pending =>
+        rw [poll_join_pending hp]
+        simp only [Fut.owed, hout.1, hok, if_true]; exact ih
+    · simp [hok] at hcell
+  · intro fs S ih cell hcell
+    have hout := poll_out_aux.2 fs S
+    rcases hp : pollAll fs S with ⟨fs', S1, p⟩
+    rw [hp] at hout
+    simp only [Fut.owed] at hcell
+    by_cases hok : (Fut.outs fs).isSome = true
+    · simp only [hok, if_true] at hcell
+      have ih := ih cell hcell; rw [hp] at ih
+      cases p with
+      | failed e => have := hout.2.1 e rfl; rw [this] at hok; simp at hok
+      | done vs =>
+        rw [poll_after_done hp]
+        have := pollAll_done_owed fs S fs' S1 vs hp
+        rcases ih with h | h
+        · simp [this] at h
+        · exact Or.inr h
+      | pending =>
+        rw [poll_after_pending hp]
+        simp only [Fut.owed, hout.1, hok, if_true]; exact ih
+    · simp [hok] at hcell
+  · intro S cell h; simp [Fut.owedL] at h
+  · intro f rest S ih ihr cell hcell
+    simp only [Fut.owedL, List.mem_append] at hcell
+    rcases hp : poll f S with ⟨f', S1, o⟩
+    have ih := fun h => ih cell h
+    rw [hp] at ih
+    have hcombine : ∀ (rest' : List Fut) (S2 : Store), Mono S1 S2 →
+        (cell ∈ Fut.owedL rest → cell ∈ Fut.owedL rest' ∨ Covered S2.log cell) →
+        cell ∈ Fut.owedL (f' :: rest') ∨ Covered S2.log cell := by
+      intro rest' S2 hm hr
+      simp only [Fut.owedL, List.mem_append]
+      rcases hcell with h | h
+      · rcases ih h with h | h
+        · exact Or.inl (Or.inl h)
+        · exact Or.inr (h.mono hm)
+      · rcases hr h with h | h
+        · exact Or.inl (Or.inr h)
+        · exact Or.inr h
+    cases o with
+    | some r =>
+      cases r with
+      | err e =>
+        rw [pollAll_cons_err hp]
+        exact hcombine rest S1 (Mono.refl _) (fun h => Or.inl h)
+      | ok v =>
+        have ihr := ihr f' S1 _ hp (by intro e h; cases h) cell
+        have hm := poll_mono_aux.2 rest S1
+        rcases hp2 : pollAll rest S1 with ⟨rest', S2, p⟩
+        rw [hp2] at ihr hm
+        rw [pollAll_cons_ok hp hp2]; exact hcombine rest' S2 hm ihr
+    | none =>
+      have ihr := ihr f' S1 _ hp (by intro e h; cases h) cell
+      have hm := poll_mono_aux.2 rest S1
+      rcases hp2 : pollAll rest S1 with ⟨rest', S2, p⟩
+      rw [hp2] at ihr hm
+      rw [pollAll_cons_none hp hp2]; exact hcombine rest' S2 hm ihr
+
+/-! ## §C right `Set`s of one slot agree (distinct response keys) -/
+
+/-- Two right `Set`s of the same slot carry the same key and value. -/
+def FunW (W : List Write) : Prop :=
+  ∀ w1 ∈ W, ∀ w2 ∈ W, w1.mp = w2.mp → w1.i = w2.i → w1.key = w2.key ∧ w1.v = w2.v
+
+theorem FunW_nil : FunW [] := by intro w1 h; simp at h
+
+theorem FunW_append {A B : List Write} (hA : FunW A) (hB : FunW B)
+    (hx : ∀ a ∈ A, ∀ b ∈ B, a.mp = b.mp → a.i = b.i → False) : FunW (A ++ B) := by
+  intro w1 h1 w2 h2 hmp hi
+  rcases List.mem_append.mp h1 with h1 | h1 <;> rcases List.mem_append.mp h2 with h2 | h2
+  · exact hA w1 h1 w2 h2 hmp hi
+  · exact (hx w1 h1 w2 h2 hmp hi).elim
+  · exact (hx w2 h2 w1 h1 hmp.symm hi.symm).elim
+  · exact hB w1 h1 w2 h2 hmp hi
+
+theorem prefix_singleton_inj {p m : Path} {a b : Seg} (h1 : (p ++ [a]) <+: m) (h2 : (p ++ [b]) <+: m) : a = b := by
+  have h := List.prefix_of_prefix_length_le h1 h2 (by simp)
+  have := h.eq_of_length (by simp)
+  simpa using this
+
+theorem not_prefix_longer {p : Path} {a : Seg} (h : (p ++ [a]) <+: p) : False := by
+  have := h.length_le; simp at this; omega
+
+/-- Where the right `Set`s of a selection set live: on the object itself (slots from `i` on) or
+    beneath one of its keys. -/
+def ShapeF (path : Path) (i : Nat) (keys : List String) (w : Write) : Prop :=
+  (w.mp = path ∧ i ≤ w.i) ∨ (∃ key ∈ keys, (path ++ [.key key]) <+: w.mp)
+
+theorem keysL_contains_false {key : String} {rest : List Field} (h : (Field.keysL rest).contains key = false) :
+    key ∉ Field.keysL rest := by
+  intro hm
+  have : (Field.keysL rest).contains key = true := by simpa using hm
+  rw [h] at this; cases this
+
+theorem writes_fun_aux :
+    (∀ c : Comp, ∀ path, c.distinctKeys = true →
+      (∀ w ∈ Spec.writesC c path, path <+: w.mp) ∧ FunW (Spec.writesC c path)) ∧
+    (∀ fs : List Field, ∀ path i, Field.distinctKeysL fs = true →
+      (∀ w ∈ Spec.writesF fs path i, ShapeF path i (Field.keysL fs) w) ∧ FunW (Spec.writesF fs path i)) ∧
+    (∀ cs : List Comp, ∀ path i, Comp.distinctKeysL cs = true →
+      (∀ w ∈ Spec.writesL cs path i, ∃ j, i ≤ j ∧ (path ++ [Seg.idx j]) <+: w.mp) ∧ FunW (Spec.writesL cs path i)) := by
+  apply Comp.allSync.mutual_induct
+    (motive_1 := fun c => ∀ path, c.distinctKeys = true →
+      (∀ w ∈ Spec.writesC c path, path <+: w.mp) ∧ FunW (Spec.writesC c path))
+    (motive_2 := fun fs => ∀ path i, Field.distinctKeysL fs = true →
+      (∀ w ∈ Spec.writesF fs path i, ShapeF path i (Field.keysL fs) w) ∧ FunW (Spec.writesF fs path i))
+    (motive_3 := fun cs => ∀ path i, Comp.distinctKeysL cs = true →
+      (∀ w ∈ Spec.writesL cs path i, ∃ j, i ≤ j ∧ (path ++ [Seg.idx j]) <+: w.mp) ∧ FunW (Spec.writesL cs path i))
+  · intro inn cs ih path hd
+    simp only [Comp.distinctKeys] at hd
+    obtain ⟨h1, h2⟩ := ih path 0 hd
+    simp only [Spec.writesC]
+    refine ⟨fun w hw => ?_, h2⟩
+    obtain ⟨j, _, hj⟩ := h1 w hw
+    exact (List.prefix_append path [.idx j]).trans hj
+  · intro fs ih path hd
+    simp only [Comp.distinctKeys] at hd
+    obtain ⟨h1, h2⟩ := ih path 0 hd
+    simp only [Spec.writesC]
+    refine ⟨fun w hw => ?_, h2⟩
+    rcases h1 w hw with ⟨hmp, _⟩ | ⟨key, _, hk⟩
+    · rw [hmp]; exact List.prefix_refl _
+    · exact (List.prefix_append path [.key key]).trans hk
+  · intro path _; simp only [Spec.writesC]; exact ⟨fun w h => by simp at h, FunW_nil⟩
+  · intro s path _; simp only [Spec.writesC]; exact ⟨fun w h => by simp at h, FunW_nil⟩
+  · intro m path _; simp only [Spec.writesC]; exact ⟨fun w h => by simp at h, FunW_nil⟩
+  · intro path i _; simp only [Spec.writesL]; exact ⟨fun w h => by simp at h, FunW_nil⟩
+  · intro c rest ih1 ih2 path i hd
+    simp only [Comp.distinctKeysL, Bool.and_eq_true] at hd
+    obtain ⟨a1, a2⟩ := ih1 (path ++ [.idx i]) hd.1
+    obtain ⟨b1, b2⟩ := ih2 path (i + 1) hd.2
+    simp only [Spec.writesL]
+    constructor
+    · intro w hw
+      rcases List.mem_append.mp hw with hw | hw
+      · exact ⟨i, Nat.le_refl _, a1 w hw⟩
+      · obtain ⟨j, hj, hp⟩ := b1 w hw
+        exact ⟨j, by omega, hp⟩
+    · refine FunW_append a2 b2 ?_
+      intro a ha b hb hmp _
+      obtain ⟨j, hj, hp⟩ := b1 b hb
+      have hpa := a1 a ha
+      rw [hmp] at hpa
+      have := prefix_singleton_inj hpa hp
+      simp at this; omega
+  · intro path i _; simp only [Spec.writesF]; exact ⟨fun w h => by simp at h, FunW_nil⟩
+  · intro key nn mode rerr c rest ih1 ih2 path i hd
+    simp only [Field.distinctKeysL, Bool.and_eq_true, Bool.not_eq_true'] at hd
+    obtain ⟨⟨hk, hdc⟩, hdr⟩ := hd
+    have hknot := keysL_contains_false hk
+    obtain ⟨a1, a2⟩ := ih1 (path ++ [.key key]) hdc
+    obtain ⟨b1, b2⟩ := ih2 path (i + 1) hdr
+    -- the three groups
+    have own_shape : ∀ w ∈ (match Spec.field path (.mk key nn mode rerr c) with
+        | .ok v => [(⟨path, i, key, v⟩ : Write)] | .fail => []), w.mp = path ∧ w.i = i := by
+      intro w hw
+      cases hf : Spec.field path (.mk key nn mode rerr c) <;> simp [hf] at hw
+      subst hw; exact ⟨rfl, rfl⟩
+    have own_fun : FunW (match Spec.field path (.mk key nn mode rerr c) with
+        | .ok v => [(⟨path, i, key, v⟩ : Write)] | .fail => []) := by
+      cases hf : Spec.field path (.mk key nn mode rerr c)
+      · intro w1 h1 w2 h2 _ _
+        simp at h1 h2; subst h1; subst h2; exact ⟨rfl, rfl⟩
+      · exact FunW_nil
+    have nest_shape : ∀ w ∈ (if Spec.descends mode rerr then Spec.writesC c (path ++ [.key key]) else []),
+        (path ++ [.key key]) <+: w.mp := by
+      intro w hw
+      cases hdsc : Spec.descends mode rerr <;> simp [hdsc] at hw
+      exact a1 w hw
+    have nest_fun : FunW (if Spec.descends mode rerr then Spec.writesC c (path ++ [.key key]) else []) := by
+      cases hdsc : Spec.descends mode rerr <;> simp [FunW_nil, a2]
+    simp only [Spec.writesF, Field.keysL]
+    constructor
+    · intro w hw
+      rcases List.mem_append.mp hw with hw | hw
+      · rcases List.mem_append.mp hw with hw | hw
+        · obtain ⟨h1, h2⟩ := own_shape w hw
+          exact Or.inl ⟨h1, by omega⟩
+        · exact Or.inr ⟨key, List.mem_cons_self, nest_shape w hw⟩
+      · rcases b1 w hw with ⟨h1, h2⟩ | ⟨key', hk', hp⟩
+        · exact Or.inl ⟨h1, by omega⟩
+        · exact Or.inr ⟨key', List.mem_cons_of_mem _ hk', hp⟩
+    · refine FunW_append (FunW_append own_fun nest_fun ?_) b2 ?_
+      · intro a ha b hb hmp _
+        obtain ⟨h1, _⟩ := own_shape a ha
+        have := nest_shape b hb
+        rw [← hmp, h1] at this
+        exact not_prefix_longer this
+      · intro a ha b hb hmp hi
+        rcases List.mem_append.mp ha with ha | ha
+        · obtain ⟨h1, h2⟩ := own_shape a ha
+          rcases b1 b hb with ⟨_, h4⟩ | ⟨key', _, hp⟩
+          · omega
+          · rw [← hmp, h1] at hp; exact not_prefix_longer hp
+        · have hpa := nest_shape a ha
+          rcases b1 b hb with ⟨h3, _⟩ | ⟨key', hk', hp⟩
+          · rw [hmp, h3] at hpa; exact not_prefix_longer hpa
+          · rw [hmp] at hpa
+            have := prefix_singleton_inj hpa hp
+            simp at this
+            subst this
+            exact hknot hk'
+
+/-! ## §D reading the data back -/
+
+theorem slotOf_mem (mp : Path) (i : Nat) (log : List Entry) (k : String) (v : Val)
+    (h : slotOf mp i log = some (k, v)) : Entry.write mp i k v ∈ log := by
+  induction log with
+  | nil => simp [slotOf] at h
+  | cons e rest ih =>
+    cases e with
+    | write mp' i' key' v' =>
+      simp only [slotOf] at h
+      cases hr : slotOf mp i rest with
+      | some kv =>
+        rw [hr] at h; simp only [Option.some.injEq] at h; subst h
+        exact List.mem_cons_of_mem _ (ih hr)
+      | none =>
+        rw [hr] at h
+        simp only at h
+        split at h
+        · rename_i hc
+          simp only [Option.some.injEq, Prod.mk.injEq] at h
+          obtain ⟨rfl, rfl⟩ := h
+          obtain ⟨rfl, rfl⟩ := hc
+          exact List.mem_cons_self
+        · cases h
+    | _ => simp only [slotOf] at h; exact List.mem_cons_of_mem _ (ih h)
+
+theorem slotOf_isSome (mp : Path) (i : Nat) (log : List Entry) (k : String) (v : Val)
+    (h : Entry.write mp i k v ∈ log) : (slotOf mp i log).isSome = true := by
+  induction log with
+  | nil => simp at h
+  | cons e rest ih =>
+    rcases List.mem_cons.mp h with h1 | h2
+    · subst h1
+      simp only [slotOf]
+      cases slotOf mp i rest <;> simp
+    · have hrest := ih h2
+      clear h
+      cases e with
+      | write mp' i' key' v' =>
+        simp only [slotOf]
+        cases hr : slotOf mp i rest with
+        | some kv => simp
+        | none => rw [hr] at hrest; simp at hrest
+      | _ => simp only [slotOf]; exact hrest
+
+/-- In a log that holds only right `Set`s, a slot that has been set reads back as the right
+    key and value. -/
+theorem slot_read (log : List Entry) (W : List Write) (hs : ∀ w, HasWrite log w → w ∈ W) (hf : FunW W)
+    (w : Write) (hw : w ∈ W) (hc : Covered log (w.mp, w.i)) : slotOf w.mp w.i log = some (w.key, w.v) := by
+  obtain ⟨k, v, hm⟩ := hc
+  have hsome := slotOf_isSome w.mp w.i log k v hm
+  cases hr : slotOf w.mp w.i log with
+  | none => rw [hr] at hsome; simp at hsome
+  | some kv =>
+    obtain ⟨k', v'⟩ := kv
+    have hm' := slotOf_mem w.mp w.i log k' v' hr
+    have hin : (⟨w.mp, w.i, k', v'⟩ : Write) ∈ W := hs ⟨w.mp, w.i, k', v'⟩ hm'
+    obtain ⟨h1, h2⟩ := hf ⟨w.mp, w.i, k', v'⟩ hin w hw rfl rfl
+    simp only at h1 h2
+    rw [h1, h2]
+
+theorem render_null (fuel : Nat) (log : List Entry) (h : 1 ≤ fuel) : render fuel log .null = "null" := by
+  cases fuel with
+  | zero => omega
+  | succ k => rfl
+
+theorem render_scalar (fuel : Nat) (log : List Entry) (s : String) (h : 1 ≤ fuel) : render fuel log (.scalar s) = s := by
+  cases fuel with
+  | zero => omega
+  | succ k => rfl
+
+theorem render_tname (fuel : Nat) (log : List Entry) (c : Comp) (h : 1 ≤ fuel) :
+    render fuel log (tnameVal c) = (match tnameVal c with | .scalar s => s | _ => "null") := by
+  cases c <;> simp [tnameVal, render_null fuel log h, render_scalar fuel log _ h]
+
+theorem render_list (f : Nat) (log : List Entry) (vs : List Val) :
+    render (f + 1) log (.list vs) = "[" ++ ",".intercalate (vs.map (render f log)) ++ "]" := rfl
+
+theorem render_obj (f : Nat) (log : List Entry) (p : Path) (n : Nat) :
+    render (f + 1) log (.obj p n) = "{" ++ ",".intercalate (slotTexts (render f log) log p n 0) ++ "}" := rfl
+
+theorem comp_null_ok {nn : Bool} {path : Path} {v : Val} (h : Spec.comp nn .null path = .ok v) : v = .null := by
+  cases nn <;> simp [Spec.comp, Out.nonNull] at h <;> exact h.symm
+
+theorem comp_scalar_ok {nn : Bool} {s : String} {path : Path} {v : Val} (h : Spec.comp nn (.scalar s) path = .ok v) :
+    v = .scalar s := by
+  cases nn <;> simp [Spec.comp, Out.nonNull] at h <;> exact h.symm
+
+/-- The slot value of a field that yields a value, by cases. -/
+theorem field_ok_cases (path : Path) (key : String) (nn : Bool) (mode : Mode) (rerr : Option String) (c : Comp)
+    (v : Val) (h : Spec.field path (.mk key nn mode rerr c) = .ok v) :
+    (mode = .tname ∧ v = tnameVal c) ∨
+    (mode ≠ .tname ∧ rerr ≠ none ∧ v = .null) ∨
+    (Spec.descends mode rerr = true ∧ Spec.comp nn c (path ++ [.key key]) = .ok v) ∨
+    (Spec.descends mode rerr = true ∧ (Spec.comp nn c (path ++ [.key key])).isOk = false ∧ v = .null) := by
+  cases mode <;> cases rerr <;> cases nn <;> simp [Spec.field, Out.caught, Spec.descends] at h ⊢
+  all_goals first
+    | exact h.symm
+    | (cases hc : Spec.comp _ c (path ++ [.key key]) <;> simp_all [Out.isOk])
+
+theorem render_eq_json_aux (log : List Entry) (W : List Write) (hs : ∀ w, HasWrite log w → w ∈ W) (hf : FunW W) :
+    (∀ c : Comp, ∀ nn path v fuel, Spec.comp nn c path = .ok v → c.weight ≤ fuel →
+      (∀ w ∈ Spec.writesC c path, w ∈ W) → (∀ cell ∈ Spec.cellsC nn c path, Covered log cell) →
+      render fuel log v = Spec.jsonC c path) ∧
+    (∀ fs : List Field, ∀ path i fuel, Spec.fieldsOk fs path = true → Field.weightL fs ≤ fuel →
+      (∀ w ∈ Spec.writesF fs path i, w ∈ W) → (∀ cell ∈ Spec.cellsF fs path i, Covered log cell) →
+      slotTexts (render fuel log) log path fs.length i = Spec.jsonF fs path) ∧
+    (∀ cs : List Comp, ∀ inn path i fuel vs, Spec.items inn cs path i = some vs → Comp.weightL cs ≤ fuel →
+      (∀ w ∈ Spec.writesL cs path i, w ∈ W) → (∀ cell ∈ Spec.cellsL inn cs path i, Covered log cell) →
+      vs.map (render fuel log) = Spec.jsonL inn cs path i) := by
+  apply Comp.allSync.mutual_induct
+    (motive_1 := fun c => ∀ nn path v fuel, Spec.comp nn c path = .ok v → c.weight ≤ fuel →
+      (∀ w ∈ Spec.writesC c path, w ∈ W) → (∀ cell ∈ Spec.cellsC nn c path, Covered log cell) →
+      render fuel log v = Spec.jsonC c path)
+    (motive_2 := fun fs => ∀ path i fuel, Spec.fieldsOk fs path = true → Field.weightL fs ≤ fuel →
+      (∀ w ∈ Spec.writesF fs path i, w ∈ W) → (∀ cell ∈ Spec.cellsF fs path i, Covered log cell) →
+      slotTexts (render fuel log) log path fs.length i = Spec.jsonF fs path)
+    (motive_3 := fun cs => ∀ inn path i fuel vs, Spec.items inn cs path i = some vs → Comp.weightL cs ≤ fuel →
+      (∀ w ∈ Spec.writesL cs path i, w ∈ W) → (∀ cell ∈ Spec.cellsL inn cs path i, Covered log cell) →
+      vs.map (render fuel log) = Spec.jsonL inn cs path i)
+  · -- list
+    intro inn cs ih nn path v fuel hv hw hW hC
+    simp only [Comp.weight] at hw
+    cases fuel with
+    | zero => omega
+    | succ f =>
+      simp only [Spec.comp] at hv
+      cases hi : Spec.items inn cs path 0 with
+      | none => rw [hi] at hv; cases hv
+      | some vs =>
+        rw [hi] at hv; simp only [Out.ok.injEq] at hv; subst hv
+        have hcells : ∀ cell ∈ Spec.cellsL inn cs path 0, Covered log cell := by
+          intro cell hc; apply hC
+          simp only [Spec.cellsC, Spec.comp, hi, Out.isOk, if_true]; exact hc
+        rw [render_list, ih inn path 0 f vs hi (by omega) (by simpa [Spec.writesC] using hW) hcells]
+        simp [Spec.jsonC]
+  · -- object
+    intro fs ih nn path v fuel hv hw hW hC
+    simp only [Comp.weight] at hw
+    cases fuel with
+    | zero => omega
+    | succ f =>
+      simp only [Spec.comp] at hv
+      cases hok : Spec.fieldsOk fs path with
+      | false => rw [hok] at hv; simp at hv
+      | true =>
+        rw [hok] at hv; simp only [if_true, Out.ok.injEq] at hv; subst hv
+        have hcells : ∀ cell ∈ Spec.cellsF fs path 0, Covered log cell := by
+          intro cell hc; apply hC
+          simp only [Spec.cellsC, Spec.comp, hok, Out.isOk, if_true]; exact hc
+        rw [render_obj, ih path 0 f hok (by omega) (by simpa [Spec.writesC] using hW) hcells]
+        simp [Spec.jsonC]
+  · intro nn path v fuel hv hw _ _
+    simp only [Comp.weight] at hw
+    rw [comp_null_ok hv, render_null fuel log (by omega)]; simp [Spec.jsonC]
+  · intro s nn path v fuel hv hw _ _
+    simp only [Comp.weight] at hw
+    rw [comp_scalar_ok hv, render_scalar fuel log s (by omega)]; simp [Spec.jsonC]
+  · intro m nn path v fuel hv _ _ _; simp [Spec.comp] at hv
+  · intro inn path i fuel vs hv _ _ _
+    simp only [Spec.items, Option.some.injEq] at hv; subst hv; simp [Spec.jsonL]
+  · -- items cons
+    intro c rest ih1 ih2 inn path i fuel vs hv hw hW hC
+    simp only [Comp.weightL] at hw
+    simp only [Spec.items] at hv
+    cases hcaught : Out.caught inn (Spec.comp inn c (path ++ [.idx i])) with
+    | fail => rw [hcaught] at hv; simp at hv
+    | ok u =>
+      cases hrest : Spec.items inn rest path (i + 1) with
+      | none => rw [hcaught, hrest] at hv; simp at hv
+      | some us =>
+        rw [hcaught, hrest] at hv; simp only [Option.some.injEq] at hv; subst hv
+        have hWc : ∀ w ∈ Spec.writesC c (path ++ [.idx i]), w ∈ W :=
+          fun w h => hW w ((mem_writesL_cons _ _ _ _ _).mpr (Or.inl h))
+        have hWr : ∀ w ∈ Spec.writesL rest path (i + 1), w ∈ W :=
+          fun w h => hW w ((mem_writesL_cons _ _ _ _ _).mpr (Or.inr h))
+        have hCc : ∀ cell ∈ Spec.cellsC inn c (path ++ [.idx i]), Covered log cell :=
+          fun cell h => hC cell (by simp only [Spec.cellsL, List.mem_append]; exact Or.inl h)
+        have hCr : ∀ cell ∈ Spec.cellsL inn rest path (i + 1), Covered log cell :=
+          fun cell h => hC cell (by simp only [Spec.cellsL, List.mem_append]; exact Or.inr h)
+        simp only [List.map_cons, Spec.jsonL]
+        rw [ih2 inn path (i + 1) fuel us hrest (by omega) hWr hCr]
+        congr 1
+        cases hcomp : Spec.comp inn c (path ++ [.idx i]) with
+        | ok u' =>
+          have : u = u' := by
+            rw [hcomp] at hcaught; cases inn <;> simp [Out.caught] at hcaught <;> exact hcaught.symm
+          subst this
+          simp only [Out.isOk, if_true]
+          exact ih1 inn (path ++ [.idx i]) u fuel hcomp (by omega) hWc hCc
+        | fail =>
+          have : u = .null := by
+            rw [hcomp] at hcaught; cases inn <;> simp [Out.caught] at hcaught; exact hcaught.symm
+          subst this
+          have := Comp.weight_pos c
+          simp [Out.isOk, render_null fuel log (by omega)]
+  · intro path i fuel _ _ _ _; simp [slotTexts, Spec.jsonF]
+  · -- fields cons
+    intro key nn mode rerr c rest ih1 ih2 path i fuel hok hw hW hC
+    simp only [Field.weightL] at hw
+    rw [fieldsOk_cons] at hok
+    simp only [Bool.and_eq_true] at hok
+    obtain ⟨hfok, hrok⟩ := hok
+    cases hfield : Spec.field path (.mk key nn mode rerr c) with
+    | fail => rw [hfield] at hfok; simp [Out.isOk] at hfok
+    | ok v =>
+      have hWr : ∀ w ∈ Spec.writesF rest path (i + 1), w ∈ W :=
+        fun w h => hW w ((mem_writesF_cons _ _ _ _ _ _ _ _ _).mpr (Or.inr (Or.inr h)))
+      have hCr : ∀ cell ∈ Spec.cellsF rest path (i + 1), Covered log cell :=
+        fun cell h => hC cell ((mem_cellsF_cons _ _ _ _ _ _ _ _ _).mpr (Or.inr (Or.inr h)))
+      have hown : (⟨path, i, key, v⟩ : Write) ∈ W :=
+        hW _ ((mem_writesF_cons _ _ _ _ _ _ _ _ _).mpr (Or.inl ⟨v, hfield, rfl⟩))
+      have hcov : Covered log (path, i) := hC _ ((mem_cellsF_cons _ _ _ _ _ _ _ _ _).mpr (Or.inl rfl))
+      have hslot := slot_read log W hs hf ⟨path, i, key, v⟩ hown hcov
+      simp only at hslot
+      simp only [List.length_cons, slotTexts, slotText, hslot, Spec.jsonF]
+      rw [ih2 path (i + 1) fuel hrok (by omega) hWr hCr]
+      congr 2
+      rcases field_ok_cases path key nn mode rerr c v hfield with ⟨hm, hv⟩ | ⟨hm, hr, hv⟩ | ⟨hd, hc⟩ | ⟨hd, hc, hv⟩
+      · subst hm; subst hv; simp only; exact render_tname fuel log c (by omega)
+      · subst hv
+        cases mode <;> cases rerr <;> simp_all [render_null fuel log (by omega)]
+      · have hWc : ∀ w ∈ Spec.writesC c (path ++ [.key key]), w ∈ W :=
+          fun w h => hW w ((mem_writesF_cons _ _ _ _ _ _ _ _ _).mpr (Or.inr (Or.inl ⟨hd, h⟩)))
+        have hCc : ∀ cell ∈ Spec.cellsC nn c (path ++ [.key key]), Covered log cell :=
+          fun cell h => hC cell ((mem_cellsF_cons _ _ _ _ _ _ _ _ _).mpr (Or.inr (Or.inl ⟨hd, h⟩)))
+        have := ih1 nn (path ++ [.key key]) v fuel hc (by omega) hWc hCc
+        cases mode <;> cases rerr <;> simp_all [Spec.descends, Out.isOk]
+      · subst hv
+        cases mode <;> cases rerr <;> simp_all [Spec.descends, render_null fuel log (by omega)]
+
+/-! ## §E whole runs -/
+
+theorem idleRound_writes (mask : Option Nat) (S : Store) (hne : S.outstanding ≠ []) (w : Write) :
+    HasWrite (idleRound mask S).log w ↔ HasWrite S.log w := by
+  obtain ⟨_, _, _, _, hlog, _⟩ := idleRound_spec mask S hne
+  rw [hlog, HasWrite_append]
+  constructor
+  · rintro (h | h)
+    · exact h
+    · simp [HasWrite] at h
+  · exact Or.inl
+
+theorem idleRound_covered (mask : Option Nat) (S : Store) (hne : S.outstanding ≠ []) (cell : Cell)
+    (h : Covered S.log cell) : Covered (idleRound mask S).log cell := by
+  obtain ⟨_, _, _, _, hlog, _⟩ := idleRound_spec mask S hne
+  obtain ⟨k, v, hm⟩ := h
+  exact ⟨k, v, by rw [hlog]; exact List.mem_append_left _ hm⟩
+
+/-- `wait` keeps the log sound and, when it returns a result, has set every owed slot. -/
+theorem waitLoop_data (W : List Write) (cells : List Cell) (fuel : Nat) :
+    ∀ (f : Fut) (sched : List Nat) (S : Store),
+      (∀ w, HasWrite S.log w → w ∈ W) → (∀ w, f.mayW w → w ∈ W) →
+      (∀ cell ∈ cells, cell ∈ f.owed ∨ Covered S.log cell) →
+      (∀ w, HasWrite (waitLoop fuel f sched S).2.2.log w → w ∈ W) ∧
+      (∀ r, (waitLoop fuel f sched S).1 = .done r → ∀ cell ∈ cells, Covered (waitLoop fuel f sched S).2.2.log cell) := by
+  induction fuel with
+  | zero =>
+    intro f sched S hs hmay hc
+    have hsound := poll_sound_aux.1 f S
+    have hcov := poll_cover_aux.1 f S
+    have hm := poll_mono f S
+    rcases hp : poll f S with ⟨f', S1, o⟩
+    rw [hp] at hsound hcov hm
+    have hs1 : ∀ w, HasWrite S1.log w → w ∈ W := fun w h => by
+      rcases (hsound w).2 h with h | h
+      · exact hs w h
+      · exact hmay w h
+    cases o with
+    | none =>
+      have : (waitLoop 0 f sched S) = (.outOfFuel, sched, S1) := by simp [waitLoop, hp]
+      rw [this]; exact ⟨hs1, fun r h => by cases h⟩
+    | some r =>
+      rw [waitLoop_some 0 f f' sched S S1 r hp]
+      refine ⟨hs1, fun r' _ cell hcell => ?_⟩
+      have hr := poll_some_ready f S f' S1 r hp
+      rcases hc cell hcell with h | h
+      · rcases hcov cell h with h | h
+        · simp [hr, Fut.owed] at h
+        · exact h
+      · exact h.mono hm
+  | succ fuel ih =>
+    intro f sched S hs hmay hc
+    have hsound := poll_sound_aux.1 f S
+    have hcov := poll_cover_aux.1 f S
+    have hm := poll_mono f S
+    rcases hp : poll f S with ⟨f', S1, o⟩
+    rw [hp] at hsound hcov hm
+    have hs1 : ∀ w, HasWrite S1.log w → w ∈ W := fun w h => by
+      rcases (hsound w).2 h with h | h
+      · exact hs w h
+      · exact hmay w h
+    have hmay1 : ∀ w, f'.mayW w → w ∈ W := fun w h => hmay w ((hsound w).1 h)
+    have hc1 : ∀ cell ∈ cells, cell ∈ f'.owed ∨ Covered S1.log cell := fun cell hcell => by
+      rcases hc cell hcell with h | h
+      · exact hcov cell h
+      · exact Or.inr (h.mono hm)
+    cases o with
+    | some r =>
+      rw [waitLoop_some (fuel + 1) f f' sched S S1 r hp]
+      refine ⟨hs1, fun r' _ cell hcell => ?_⟩
+      have hr := poll_some_ready f S f' S1 r hp
+      rcases hc1 cell hcell with h | h
+      · simp [hr, Fut.owed] at h
+      · exact h
+    | none =>
+      by_cases he : S1.outstanding = []
+      · have : (waitLoop (fuel + 1) f sched S) = (.stuck, sched, { S1 with rounds := S1.rounds + 1 }) := by
+          simp [waitLoop, hp, he]
+        rw [this]; exact ⟨hs1, fun r h => by cases h⟩
+      · rw [waitLoop_succ_none fuel f f' sched S S1 hp he]
+        exact ih f' sched.tail (idleRound sched.head? S1)
+          (fun w h => hs1 w ((idleRound_writes _ _ he w).mp h)) hmay1
+          (fun cell hcell => by
+            rcases hc1 cell hcell with h | h
+            · exact Or.inl h
+            · exact Or.inr (idleRound_covered _ _ he cell h))
+
+/-- The data `run` reports for a returned result. -/
+def dataOfRes (rq : Request) (r : Res) (log : List Entry) : String :=
+  match r with
+  | .ok v => render (Field.weightL rq.fields + 6) log v
+  | .err _ => "null"
+
+theorem run_data_done (rq : Request) (r : Res) (h : (execute rq).1 = .done r) :
+    (run rq).data = dataOfRes rq r (execute rq).2.log := by
+  unfold run
+  rcases hx : execute rq with ⟨w, S⟩
+  rw [hx] at h; simp only at h; subst h
+  cases r <;> rfl
+
+/-- **Data of a query.** With distinct response keys, whenever execution returns the data read
+    back from the log is the reference JSON. -/
+theorem query_data (rq : Request) (hq : rq.mutation = false) (hd : Field.distinctKeysL rq.fields = true)
+    (r : Res) (h : (execute rq).1 = .done r) : (run rq).data = Spec.data rq := by
+  have hspec := (execute_spec rq r h).1
+  -- unfold the query path
+  rw [run_data_done rq r h]
+  cases r with
+  | err e =>
+    simp only [dataOfRes]
+    simp only [Res.out, Spec.request] at hspec
+    simp only [Spec.data]
+    split at hspec
+    · cases hspec
+    · rename_i hok; simp [hok]
+  | ok v =>
+    simp only [dataOfRes]
+    simp only [Res.out, Spec.request] at hspec
+    have hok : Spec.fieldsOk rq.fields [] = true := by
+      split at hspec
+      · assumption
+      · cases hspec
+    simp only [hok, if_true, Out.ok.injEq] at hspec
+    subst hspec
+    -- the log is sound and complete
+    let W := Spec.writesF rq.fields [] 0
+    let cells := Spec.cellsF rq.fields [] 0
+    have hfun : FunW W := (writes_fun_aux.2.1 rq.fields [] 0 hd).2
+    have hlog : (∀ w, HasWrite (execute rq).2.log w → w ∈ W) ∧ (∀ cell ∈ cells, Covered (execute rq).2.log cell) := by
+      unfold execute at h ⊢
+      simp only [hq, Bool.false_eq_true, if_false] at h ⊢
+      rcases hb : execFields rq.fields [] rq.fields.length 0 [] {} with ⟨f, S1⟩
+      rw [hb] at h
+      simp only at h ⊢
+      have hsound := complete_sound_aux.2.1 rq.fields [] rq.fields.length 0 [] {}
+      have hcover := complete_cover_aux.2.1 rq.fields [] rq.fields.length 0 [] {} (by simp [Fut.outs]) hok
+      rw [hb] at hsound hcover
+      have hw := waitLoop_data W cells (Field.invocationsL rq.fields + 1) f rq.sched S1
+        (fun w hw => by
+          rcases (hsound w).2 hw with h1 | h1
+          · simp [HasWrite] at h1
+          · exact h1)
+        (fun w hw => by
+          rcases (hsound w).1 hw with h1 | h1
+          · simp [Fut.mayWL] at h1
+          · exact h1)
+        (fun cell hcell => hcover cell (Or.inr hcell))
+      rcases hwl : waitLoop (Field.invocationsL rq.fields + 1) f rq.sched S1 with ⟨w, sched', S⟩
+      rw [hwl] at h hw
+      cases w with
+      | done r' =>
+        cases r' with
+        | ok v' => simp only at h ⊢; exact ⟨hw.1, hw.2 _ rfl⟩
+        | err e => simp at h
+      | stuck => simp at h
+      | outOfFuel => simp at h
+    have hrender := (render_eq_json_aux (execute rq).2.log W hlog.1 hfun).1 (.object rq.fields) false []
+      (.obj [] rq.fields.length) (Field.weightL rq.fields + 6)
+      (by simp [Spec.comp, hok, Out.nonNull]) (by simp [Comp.weight]; omega)
+      (by simp only [Spec.writesC]; exact fun w hw => hw)
+      (by
+        intro cell hcell
+        simp only [Spec.cellsC, Spec.comp, hok, if_true, Out.isOk] at hcell
+        exact hlog.2 cell hcell)
+    simp only [hrender, Spec.jsonC, Spec.data, hok, if_true]
+
+theorem waitLoop_result_out (fuel : Nat) : ∀ (f : Fut) (sched : List Nat) (S : Store) (r : Res),
+    (waitLoop fuel f sched S).1 = .done r → r.out = f.out := by
+  induction fuel with
+  | zero =>
+    intro f sched S r h
+    have ho := poll_result_out f S
+    rcases hp : poll f S with ⟨f', S1, o⟩
+    rw [hp] at ho
+    cases o with
+    | none => rw [waitLoop_zero_none f f' sched S S1 hp] at h; cases h
+    | some r' => rw [waitLoop_some 0 f f' sched S S1 r' hp] at h; cases h; exact ho r rfl
+  | succ fuel ih =>
+    intro f sched S r h
+    have ho := poll_result_out f S
+    have hf := poll_out f S
+    rcases hp : poll f S with ⟨f', S1, o⟩
+    rw [hp] at ho hf
+    cases o with
+    | some r' => rw [waitLoop_some (fuel + 1) f f' sched S S1 r' hp] at h; cases h; exact ho r rfl
+    | none =>
+      by_cases he : S1.outstanding = []
+      · rw [waitLoop_succ_stuck fuel f f' sched S S1 hp he] at h; cases h
+      · rw [waitLoop_succ_none fuel f f' sched S S1 hp he] at h
+        rw [ih f' _ _ r h]; exact hf
+
+/-- The serial field loop keeps the log sound and, when it returns the root object, has set every
+    slot of every visible object. -/
+theorem execSerial_data (W : List Write) (fuel : Nat) : ∀ (fields : List Field) (n i : Nat) (sched : List Nat) (S : Store),
+    (∀ w ∈ Spec.writesF fields [] i, w ∈ W) → (∀ w, HasWrite S.log w → w ∈ W) →
+    (∀ w, HasWrite (execSerial fuel fields n i sched S).2.2.log w → w ∈ W) ∧
+    (∀ v, (execSerial fuel fields n i sched S).1 = .done (.ok v) →
+      ∀ cell, (cell ∈ Spec.cellsF fields [] i ∨ Covered S.log cell) →
+        Covered (execSerial fuel fields n i sched S).2.2.log cell) := by
+  intro fields
+  induction fields with
+  | nil =>
+    intro n i sched S _ hs
+    simp only [execSerial]
+    refine ⟨hs, fun v _ cell hc => ?_⟩
+    rcases hc with h | h
+    · simp [Spec.cellsF] at h
+    · exact h
+  | cons fld rest ih =>
+    intro n i sched S hW hs
+    cases fld with
+    | mk key nn mode rerr c =>
+      have hWr : ∀ w ∈ Spec.writesF rest [] (i + 1), w ∈ W :=
+        fun w h => hW w ((mem_writesF_cons _ _ _ _ _ _ _ _ _).mpr (Or.inr (Or.inr h)))
+      by_cases hm : mode = .tname
+      · subst hm
+        simp only [execSerial]
+        have hs' : ∀ w, HasWrite (S.push (.write [] i key (tnameVal c))).log w → w ∈ W := by
+          intro w h
+          rcases (HasWrite_push_write _ _ _ _ _ _).mp h with h | h
+          · exact hs w h
+          · exact hW w ((mem_writesF_cons _ _ _ _ _ _ _ _ _).mpr (Or.inl ⟨tnameVal c, by simp [Spec.field], h⟩))
+        obtain ⟨h1, h2⟩ := ih n (i + 1) sched _ hWr hs'
+        refine ⟨h1, fun v hv cell hc => h2 v hv cell ?_⟩
+        rcases hc with h | h
+        · rcases (mem_cellsF_cons _ _ _ _ _ _ _ _ _).mp h with h | h | h
+          · subst h; exact Or.inr (Covered.push_write S [] i key _)
+          · simp [Spec.descends] at h
+          · exact Or.inl h
+        · exact Or.inr (h.mono (Mono.push _ _))
+      · rcases h1 : execField nn mode rerr c [.key key] (complete nn c [.key key]) S with ⟨f0, S1⟩
+        rcases h2 : catchIfNullable nn f0 S1 with ⟨f, S2⟩
+        have hmono : Mono S S2 := by
+          have a := execField_mono nn mode rerr c [.key key] (complete nn c [.key key]) S (fun S' => complete_mono _ _ _ _)
+          have b := catchIfNullable_mono nn f0 S1
+          rw [h1] at a; rw [h2] at b; exact a.trans b
+        have hout : f.out = Spec.field [] (.mk key nn mode rerr c) :=
+          fieldStep_out [] key nn mode rerr c S S1 S2 f0 f hm (fun S' => complete_out _ _ _ _) h1 h2
+        have hfs : ∀ w, ((f.mayW w → w ∈ W) ∧ (HasWrite S2.log w → w ∈ W)) := by
+          intro w
+          have a := execField_sound nn mode rerr c [.key key] (complete nn c [.key key]) S w hm
+            (fun S' => complete_sound_aux.1 nn c [.key key] S' w)
+          rw [h1] at a
+          have b1 := catchIfNullable_mayW nn f0 S1 w
+          have b2 := catchIfNullable_writes nn f0 S1 w
+          rw [h2] at b1 b2
+          have inW : (Spec.descends mode rerr = true ∧ w ∈ Spec.writesC c ([] ++ [.key key])) → w ∈ W :=
+            fun h => hW w ((mem_writesF_cons _ _ _ _ _ _ _ _ _).mpr (Or.inr (Or.inl h)))
+          refine ⟨fun h => inW (a.1 (b1 h)), fun h => ?_⟩
+          rcases a.2 (b2.mp h) with h | h
+          · exact hs w h
+          · exact inW h
+        rw [execSerial_cons fuel key nn mode rerr c rest n i sched S S1 S2 f0 f hm h1 h2]
+        -- everything the wait must cover: the field's own visible slots, plus any slot given as covered
+        have hwait : ∀ cell, (cell ∈ (if Spec.descends mode rerr then Spec.cellsC nn c [.key key] else []) ∨ Covered S.log cell) →
+            cell ∈ f.owed ∨ Covered S2.log cell := by
+          intro cell hc
+          rcases hc with h | h
+          · by_cases hd : Spec.descends mode rerr = true
+            · simp only [hd, if_true] at h
+              have a := execField_cover nn mode rerr c [.key key] (complete nn c [.key key]) S hd
+                (fun S' => complete_cover_aux.1 nn c [.key key] S') cell h
+              rw [h1] at a
+              have b := catchIfNullable_owed nn f0 S1
+              have bm := catchIfNullable_mono nn f0 S1
+              rw [h2] at b bm
+              rcases a with a | a
+              · exact Or.inl (by rw [b]; exact a)
+              · exact Or.inr (a.mono bm)
+            · simp [hd] at h
+          · exact Or.inr (h.mono hmono)
+        rcases hwl : waitLoop fuel f sched S2 with ⟨w, sched', S3⟩
+        have hsound3 : ∀ w', HasWrite S3.log w' → w' ∈ W := by
+          have := (waitLoop_data W [] fuel f sched S2 (fun w => (hfs w).2) (fun w => (hfs w).1) (by simp)).1
+          rw [hwl] at this; exact this
+        cases w with
+        | done r =>
+          cases r with
+          | err e => simp only [serialCont]; exact ⟨hsound3, fun v hv => by cases hv⟩
+          | ok v =>
+            simp only [serialCont]
+            have hrout := waitLoop_result_out fuel f sched S2 (.ok v) (by rw [hwl])
+            simp only [Res.out] at hrout
+            have hs4 : ∀ w', HasWrite (S3.push (.write [] i key v)).log w' → w' ∈ W := by
+              intro w' h
+              rcases (HasWrite_push_write _ _ _ _ _ _).mp h with h | h
+              · exact hsound3 w' h
+              · exact hW w' ((mem_writesF_cons _ _ _ _ _ _ _ _ _).mpr
+                  (Or.inl ⟨v, by rw [← hout, ← hrout], h⟩))
+            obtain ⟨g1, g2⟩ := ih n (i + 1) sched' _ hWr hs4
+            refine ⟨g1, fun v' hv' cell hc => g2 v' hv' cell ?_⟩
+            -- the slots of this field are covered after the wait
+            have hcov3 : ∀ cell, (cell ∈ (if Spec.descends mode rerr then Spec.cellsC nn c [.key key] else []) ∨
+                Covered S.log cell) → Covered S3.log cell := by
+              intro cell hc'
+              have := (waitLoop_data W [cell] fuel f sched S2 (fun w => (hfs w).2) (fun w => (hfs w).1)
+                (by intro c' hc''; simp only [List.mem_singleton] at hc''; subst hc''; exact hwait _ hc')).2
+              rw [hwl] at this
+              exact this _ rfl cell (by simp)
+            rcases hc with h | h
+            · rcases (mem_cellsF_cons _ _ _ _ _ _ _ _ _).mp h with h | h | h
+              · subst h; exact Or.inr (Covered.push_write S3 [] i key v)
+              · refine Or.inr ((hcov3 cell (Or.inl ?_)).mono (Mono.push _ _))
+                simp only [h.1, if_true]; simpa using h.2
+              · exact Or.inl h
+            · exact Or.inr ((hcov3 cell (Or.inr h)).mono (Mono.push _ _))
+        | stuck => simp only [serialCont]; exact ⟨hsound3, fun v hv => by cases hv⟩
+        | outOfFuel => simp only [serialCont]; exact ⟨hsound3, fun v hv => by cases hv⟩
+
+/-- **The log of a returned query is good**: only right `Set`s, and every slot of every visible
+    object set. -/
+theorem query_log_good (rq : Request) (hq : rq.mutation = false) (hok : Spec.fieldsOk rq.fields [] = true)
+    (v : Val) (h : (execute rq).1 = .done (.ok v)) :
+    (∀ w, HasWrite (execute rq).2.log w → w ∈ Spec.writesF rq.fields [] 0) ∧
+    (∀ cell ∈ Spec.cellsF rq.fields [] 0, Covered (execute rq).2.log cell) := by
+  let W := Spec.writesF rq.fields [] 0
+  let cells := Spec.cellsF rq.fields [] 0
+  unfold execute at h ⊢
+  simp only [hq, Bool.false_eq_true, if_false] at h ⊢
+  rcases hb : execFields rq.fields [] rq.fields.length 0 [] {} with ⟨f, S1⟩
+  rw [hb] at h
+  simp only at h ⊢
+  have hsound := complete_sound_aux.2.1 rq.fields [] rq.fields.length 0 [] {}
+  have hcover := complete_cover_aux.2.1 rq.fields [] rq.fields.length 0 [] {} (by simp [Fut.outs]) hok
+  rw [hb] at hsound hcover
+  have hw := waitLoop_data W cells (Field.invocationsL rq.fields + 1) f rq.sched S1
+    (fun w hw => by
+      rcases (hsound w).2 hw with h1 | h1
+      · simp [HasWrite] at h1
+      · exact h1)
+    (fun w hw => by
+      rcases (hsound w).1 hw with h1 | h1
+      · simp [Fut.mayWL] at h1
+      · exact h1)
+    (fun cell hcell => hcover cell (Or.inr hcell))
+  rcases hwl : waitLoop (Field.invocationsL rq.fields + 1) f rq.sched S1 with ⟨w, sched', S⟩
+  rw [hwl] at h hw
+  cases w with
+  | done r' =>
+    cases r' with
+    | ok v' => simp only at h ⊢; exact ⟨hw.1, hw.2 _ rfl⟩
+    | err e => simp at h
+  | stuck => simp at h
+  | outOfFuel => simp at h
+
+theorem mutation_log_good (rq : Request) (hq : rq.mutation = true)
+    (v : Val) (h : (execute rq).1 = .done (.ok v)) :
+    (∀ w, HasWrite (execute rq).2.log w → w ∈ Spec.writesF rq.fields [] 0) ∧
+    (∀ cell ∈ Spec.cellsF rq.fields [] 0, Covered (execute rq).2.log cell) := by
+  let W := Spec.writesF rq.fields [] 0
+  unfold execute at h ⊢
+  simp only [hq, if_true] at h ⊢
+  have hdata := execSerial_data W (Field.invocationsL rq.fields + 1) rq.fields rq.fields.length 0 rq.sched {}
+    (fun w hw => hw) (fun w hw => by simp [HasWrite] at hw)
+  rcases hx : execSerial (Field.invocationsL rq.fields + 1) rq.fields rq.fields.length 0 rq.sched {} with ⟨w, s', S⟩
+  rw [hx] at h hdata
+  cases w with
+  | done r' =>
+    cases r' with
+    | ok v' => simp only at h ⊢; exact ⟨hdata.1, fun cell hc => hdata.2 v' rfl cell (Or.inl hc)⟩
+    | err e => simp at h
+  | stuck => simp at h
+  | outOfFuel => simp at h
+
+/-- **no_blank_key, at slot level.** When execution returns data, every slot of every object
+    visible in the data has been set, and reads back as a right `Set` — one that carries the
+    response key of the field at that position and its reference value (`Spec.writesF`). No slot is
+    left as the zero item `("", null)`. -/
+theorem visible_slots_read_back (rq : Request) (v : Val) (h : (execute rq).1 = .done (.ok v)) :
+    ∀ cell ∈ Spec.cellsF rq.fields [] 0, ∃ key val,
+      slotOf cell.1 cell.2 (execute rq).2.log = some (key, val) ∧
+      (⟨cell.1, cell.2, key, val⟩ : Write) ∈ Spec.writesF rq.fields [] 0 := by
+  have hspec := (execute_spec rq (.ok v) h).1
+  simp only [Res.out, Spec.request] at hspec
+  have hok : Spec.fieldsOk rq.fields [] = true := by
+    split at hspec
+    · assumption
+    · cases hspec
+  have hgood : (∀ w, HasWrite (execute rq).2.log w → w ∈ Spec.writesF rq.fields [] 0) ∧
+      (∀ cell ∈ Spec.cellsF rq.fields [] 0, Covered (execute rq).2.log cell) := by
+    cases hq : rq.mutation
+    · exact query_log_good rq hq hok v h
+    · exact mutation_log_good rq hq v h
+  intro cell hcell
+  obtain ⟨k, u, hm⟩ := hgood.2 cell hcell
+  have hsome := slotOf_isSome cell.1 cell.2 _ k u hm
+  cases hr : slotOf cell.1 cell.2 (execute rq).2.log with
+  | none => rw [hr] at hsome; simp at hsome
+  | some kv =>
+    obtain ⟨k', u'⟩ := kv
+    exact ⟨k', u', rfl, hgood.1 ⟨cell.1, cell.2, k', u'⟩ (slotOf_mem _ _ _ _ _ hr)⟩
+
+/-- Every right `Set` of a selection set carries one of its response keys … -/
+theorem writesF_key_aux :
+    (∀ c : Comp, ∀ path, ∀ w ∈ Spec.writesC c path, w.key ∈ Comp.allKeys c) ∧
+    (∀ fs : List Field, ∀ path i, ∀ w ∈ Spec.writesF fs path i, w.key ∈ Field.allKeysL fs) ∧
+    (∀ cs : List Comp, ∀ path i, ∀ w ∈ Spec.writesL cs path i, w.key ∈ Comp.allKeysL cs) := by
+  apply Comp.allSync.mutual_induct
+    (motive_1 := fun c => ∀ path, ∀ w ∈ Spec.writesC c path, w.key ∈ Comp.allKeys c)
+    (motive_2 := fun fs => ∀ path i, ∀ w ∈ Spec.writesF fs path i, w.key ∈ Field.allKeysL fs)
+    (motive_3 := fun cs => ∀ path i, ∀ w ∈ Spec.writesL cs path i, w.key ∈ Comp.allKeysL cs)
+  · intro inn cs ih path w hw; simp only [Spec.writesC] at hw; simp only [Comp.allKeys]; exact ih path 0 w hw
+  · intro fs ih path w hw; simp only [Spec.writesC] at hw; simp only [Comp.allKeys]; exact ih path 0 w hw
+  · intro path w hw; simp [Spec.writesC] at hw
+  · intro s path w hw; simp [Spec.writesC] at hw
+  · intro m path w hw; simp [Spec.writesC] at hw
+  · intro path i w hw; simp [Spec.writesL] at hw
+  · intro c rest ih1 ih2 path i w hw
+    simp only [Comp.allKeysL, List.mem_append]
+    rcases (mem_writesL_cons _ _ _ _ _).mp hw with h | h
+    · exact Or.inl (ih1 _ w h)
+    · exact Or.inr (ih2 path (i + 1) w h)
+  · intro path i w hw; simp [Spec.writesF] at hw
+  · intro key nn mode rerr c rest ih1 ih2 path i w hw
+    simp only [Field.allKeysL, List.mem_cons, List.mem_append]
+    rcases (mem_writesF_cons _ _ _ _ _ _ _ _ _).mp hw with ⟨v, _, rfl⟩ | ⟨_, h⟩ | h
+    · exact Or.inl rfl
+    · exact Or.inr (Or.inl (ih1 _ w h))
+    · exact Or.inr (Or.inr (ih2 path (i + 1) w h))
+
+/-- **Data of a mutation.** -/
+theorem mutation_data (rq : Request) (hq : rq.mutation = true) (hd : Field.distinctKeysL rq.fields = true)
+    (r : Res) (h : (execute rq).1 = .done r) : (run rq).data = Spec.data rq := by
+  have hspec := (execute_spec rq r h).1
+  rw [run_data_done rq r h]
+  cases r with
+  | err e =>
+    simp only [dataOfRes]
+    simp only [Res.out, Spec.request] at hspec
+    simp only [Spec.data]
+    split at hspec
+    · cases hspec
+    · rename_i hok; simp [hok]
+  | ok v =>
+    simp only [dataOfRes]
+    simp only [Res.out, Spec.request] at hspec
+    have hok : Spec.fieldsOk rq.fields [] = true := by
+      split at hspec
+      · assumption
+      · cases hspec
+    simp only [hok, if_true, Out.ok.injEq] at hspec
+    subst hspec
+    let W := Spec.writesF rq.fields [] 0
+    have hfun : FunW W := (writes_fun_aux.2.1 rq.fields [] 0 hd).2
+    have hlog : (∀ w, HasWrite (execute rq).2.log w → w ∈ W) ∧
+        (∀ cell ∈ Spec.cellsF rq.fields [] 0, Covered (execute rq).2.log cell) := by
+      unfold execute at h ⊢
+      simp only [hq, if_true] at h ⊢
+      have hdata := execSerial_data W (Field.invocationsL rq.fields + 1) rq.fields rq.fields.length 0 rq.sched {}
+        (fun w hw => hw) (fun w hw => by simp [HasWrite] at hw)
+      rcases hx : execSerial (Field.invocationsL rq.fields + 1) rq.fields rq.fields.length 0 rq.sched {} with ⟨w, s', S⟩
+      rw [hx] at h hdata
+      cases w with
+      | done r' =>
+        cases r' with
+        | ok v' => simp only at h ⊢; exact ⟨hdata.1, fun cell hc => hdata.2 v' rfl cell (Or.inl hc)⟩
+        | err e => simp at h
+      | stuck => simp at h
+      | outOfFuel => simp at h
+    have hrender := (render_eq_json_aux (execute rq).2.log W hlog.1 hfun).1 (.object rq.fields) false []
+      (.obj [] rq.fields.length) (Field.weightL rq.fields + 6)
+      (by simp [Spec.comp, hok]) (by simp [Comp.weight]; omega)
+      (by simp only [Spec.writesC]; exact fun w hw => hw)
+      (by
+        intro cell hcell
+        simp only [Spec.cellsC, Spec.comp, hok, if_true, Out.isOk] at hcell
+        exact hlog.2 cell hcell)
+    simp only [hrender, Spec.jsonC, Spec.data, hok, if_true]
+
+/-- **Data of any request.** -/
+theorem request_data (rq : Request) (hd : Field.distinctKeysL rq.fields = true)
+    (r : Res) (h : (execute rq).1 = .done r) : (run rq).data = Spec.data rq := by
+  cases hq : rq.mutation
+  · exact query_data rq hq hd r h
+  · exact mutation_data rq hq hd r h
+
+/-- The reference data does not depend on modes. -/
+theorem spec_data_allSync_aux :
+    (∀ c : Comp, ∀ path, Spec.jsonC c.allSync path = Spec.jsonC c path) ∧
+    (∀ fs : List Field, ∀ path, Spec.jsonF (Field.allSyncL fs) path = Spec.jsonF fs path) ∧
+    (∀ cs : List Comp, ∀ inn path i, Spec.jsonL inn (Comp.allSyncL cs) path i = Spec.jsonL inn cs path i) := by
+  apply Comp.allSync.mutual_induct
+    (motive_1 := fun c => ∀ path, Spec.jsonC c.allSync path = Spec.jsonC c path)
+    (motive_2 := fun fs => ∀ path, Spec.jsonF (Field.allSyncL fs) path = Spec.jsonF fs path)
+    (motive_3 := fun cs => ∀ inn path i, Spec.jsonL inn (Comp.allSyncL cs) path i = Spec.jsonL inn cs path i)
+  · intro inn cs ih path; simp [Comp.allSync, Spec.jsonC, ih]
+  · intro fs ih path; simp [Comp.allSync, Spec.jsonC, ih]
+  · intro path; simp [Comp.allSync]
+  · intro s path; simp [Comp.allSync]
+  · intro m path; simp [Comp.allSync]
+  · intro inn path i; simp [Comp.allSyncL]
+  · intro c rest ih1 ih2 inn path i
+    simp [Comp.allSyncL, Spec.jsonL, ih1, ih2, spec_allSync_aux.1]
+  · intro path; simp [Field.allSyncL]
+  · intro key nn mode rerr c rest ih1 ih2 path
+    cases mode <;> simp [Field.allSyncL, Spec.jsonF, Mode.toSync, ih1, ih2, spec_allSync_aux.1] <;>
+      cases c <;> simp [tnameVal, Comp.allSync]
+
+theorem spec_data_allSync (rq : Request) (sched : List Nat) : Spec.data (rq.allSync sched) = Spec.data rq := by
+  simp [Spec.data, Request.allSync, spec_allSync_aux.2.1, spec_data_allSync_aux.2.1]
+
+theorem distinctKeys_allSync_aux :
+    (∀ c : Comp, c.allSync.distinctKeys = c.distinctKeys) ∧
+    (∀ fs : List Field, Field.distinctKeysL (Field.allSyncL fs) = Field.distinctKeysL fs ∧
+      Field.keysL (Field.allSyncL fs) = Field.keysL fs) ∧
+    (∀ cs : List Comp, Comp.distinctKeysL (Comp.allSyncL cs) = Comp.distinctKeysL cs) := by
+  apply Comp.allSync.mutual_induct
+    (motive_1 := fun c => c.allSync.distinctKeys = c.distinctKeys)
+    (motive_2 := fun fs => Field.distinctKeysL (Field.allSyncL fs) = Field.distinctKeysL fs ∧
+      Field.keysL (Field.allSyncL fs) = Field.keysL fs)
+    (motive_3 := fun cs => Comp.distinctKeysL (Comp.allSyncL cs) = Comp.distinctKeysL cs)
+  · intro inn cs ih; simp [Comp.allSync, Comp.distinctKeys, ih]
+  · intro fs ih; simp [Comp.allSync, Comp.distinctKeys, ih.1]
+  · simp [Comp.allSync]
+  · intro s; simp [Comp.allSync]
+  · intro m; simp [Comp.allSync]
+  · simp [Comp.allSyncL]
+  · intro c rest ih1 ih2; simp [Comp.allSyncL, Comp.distinctKeysL, ih1, ih2]
+  · simp [Field.allSyncL]
+  · intro key nn mode rerr c rest ih1 ih2
+    simp [Field.allSyncL, Field.distinctKeysL, Field.keysL, ih1, ih2.1, ih2.2]
 
 end ApiFu.C02
